@@ -1,197 +1,474 @@
 """C13 — Masks: analytic shapes and voxel-wise set algebra (DESIGN.md section 4, C13)."""
-import ast, re, math, base64, zlib
+import ast, re, math, base64, zlib, os, json, random, traceback
 from fractions import Fraction
 import numpy as np
 import core
 from core import f2b, b2f
 
 PROP = "C13"
-COUNT = {"quick": 500, "thorough": 2400, "search": 900}
+COUNT = {"quick": 500, "thorough": 2000, "search": 900}
 PARALLEL = True
 REL = "cryocat/cryomask.py"
 KINDS = ["sphere", "cylinder", "ellipsoid", "s_shell", "e_shell"]
 FNS = ["union", "intersection", "subtraction", "difference"]
+BIN_DTYPES = ["float64", "float32", "bool", "uint8", "int8"]
 SOFT_TOL = 1e-12      # float noise allowed around [0,1] and between impl and gaussian(model pre-blur mask)
-CORE_TOL = 1e-3       # the property's bound for the core of an outwards-blurred mask
+KERNEL_TOL = 1e-10    # impl vs the Lean kernel model (direct 3-D sum vs three separable passes)
+CORE_TOL = 1e-3       # the property's bound for the core of an outwards-blurred mask (Lean: coreTol)
 
-RULE = ("shape cases: constructor calls (spherical/cylindrical/ellipsoid/_shell masks, direct or through generate_mask) on non-cubic boxes "
-        "6..16 (quick) / 6..48 (thorough) per axis (even sizes for ellipsoids), centre default or anywhere in the box incl. faces, radii/heights "
-        "from 1 to beyond the box (spheres also quarter/half-integer radii), Gaussian width 0 or {0.5,..,3} with both edge modes; every voxel is "
-        "compared. algebra cases: union/intersection/subtraction/difference of 1..5 binary or soft float64 masks. "
-        "non-trivial = hard mask holding both values with a non-default centre or clipped by the box, or a soft mask, or an algebra call on >=2 masks "
-        "whose result holds both 0 and 1; distinct = distinct case content")
+RULE = ("shape cases: constructor calls (spherical/cylindrical/ellipsoid/_shell masks) on non-cubic boxes 6..16 (quick) / 6..48 (thorough) per axis "
+        "(even sizes for ellipsoids), centre default or anywhere in the box incl. faces, radii/heights from 1 to beyond the box (spheres also "
+        "quarter/half-integer radii; dedicated streams: radius >= max(box) with a corner centre, heights = 3 mod 4, outward blurs of small ellipsoids "
+        "with sigma >= 1.5), Gaussian width 0 or {0.5,..,3} with both edge modes; ~30 % of the keywords whose value is the default are omitted; every "
+        "voxel is compared. name cases: parse_shape_string + generate_mask (leading zeros, given/default size and expansion). algebra cases: "
+        "union/intersection/subtraction/difference of 1..5 binary masks of dtype float64/float32/bool/uint8/int8 (also mixed, also built by the "
+        "library's constructors) or soft float64/float32 masks. session cases: several calls in ONE process that share caller-owned objects "
+        "(the same list and ndarrays through all four functions, rewritten in place between calls; the same shape name for different box sizes; "
+        "the same mask_size/center/radii arrays for several constructors). non-trivial = hard mask holding both values with a non-default centre or "
+        "clipped by the box, or a soft mask, or an algebra call on >=2 masks whose result holds both 0 and 1, or a session of >= 2 calls; "
+        "distinct = distinct case content")
 ASSUMPTIONS = [
-    "numpy float64 evaluation of sqrt(d2) > r, of the slab bounds and of sum(x^2/r^2) <= 1 equals exact rational evaluation on integer voxel "
-    "coordinates and dyadic radii (ties sum == 1 with >= 2 non-zero terms are excluded and counted)",
-    "skimage.filters.gaussian is an external service: soft masks are compared with gaussian(model's pre-blur mask) computed by the same library; "
-    "its kernel is probed each run (non-negative, unit sum, support int(4*sigma+0.5), mode='nearest')",
-    "numpy float64 +,*,- and np.clip are IEEE-754 and equal Lean Float (compared bit for bit on every algebra case)",
-    "'never modify their inputs' is a runtime aliasing fact: validated on every algebra case by comparing the inputs before/after, not proved",
+    "numpy float64 evaluation of sqrt(d2) > r and of the slab bounds equals exact rational evaluation on integer voxel coordinates and dyadic radii; "
+    "for ellipsoids only the voxels exactly on the surface (rational sum == 1) whose float64 sum (z+y)+x of correctly rounded quotients exceeds 1 are "
+    "excluded as ties (computed per case, counted in the histograms)",
+    "skimage.filters.gaussian is an external service: soft masks are compared (a) with gaussian(model's pre-blur mask) computed by the same library and "
+    "(b) at sampled voxels with the Lean kernel model (radius int(4 sigma + 0.5), weights exp(-t^2/2 sigma^2)/sum, mode nearest); the kernel is probed "
+    "each run: non-negative, unit sum, support, symmetry, and weight beyond 5 sigma < 1e-3 (the hypothesis of soft_sphere_core_within_tol)",
+    "numpy float64 +,*,- and np.clip are IEEE-754 and equal Lean Float (compared bit for bit on every algebra case); bool/uint8/int8/float32 inputs "
+    "convert exactly to float64",
+    "'never modify their inputs' is a runtime aliasing fact: validated on every algebra call by comparing values, dtype and list identity before/after, "
+    "not proved; a result sharing memory with an input is reported as a correspondence finding (the model returns a fresh array)",
 ]
-TRUSTED = ["props/c13.py _expected(): independent integer evaluation of the analytic inequalities (numpy int64)"]
+TRUSTED = ["props/c13.py _expected()/_bool_spec(): independent integer/Boolean evaluation of the analytic inequalities and of OR/AND/AND-NOT/XOR (numpy)"]
+DOC_BLUR = "5"
+DOC_EXPANSION = 4
 
-# documented values (fallbacks for the generated file when an anchor is missing; Props/C13.lean states them independently)
-DOC = {
-    "preprocessCond": ["if:gaussian!=0.0andgaussian_outwards"],
-    "preprocessRadius": ["new_radius=np.ceil(radius+gaussian*blur_factor).astype(int)", "new_radius=radius"],
-    "sphereDist": ["mask=np.sqrt((x-center[0])**2+(y-center[1])**2+(z-center[2])**2)"],
-    "sphereCuts": ["mask[mask>radius]=0", "mask[mask>0]=1", "mask[center[0],center[1],center[2]]=1"],
-    "sphereParams": ["radius=np.amin(mask_size)//2", "radius=preprocess_params(radius,gaussian,gaussian_outwards)"],
-    "cylParams": ["radius=np.amin(mask_size[:2])//2", "height=mask_size[2]", "height=height//2",
-                  "radius=preprocess_params(radius,gaussian,gaussian_outwards)", "height=preprocess_params(height,gaussian,gaussian_outwards)"],
-    "cylDisc": ["mask_xy=np.sqrt((x-center[0])**2+(y-center[1])**2)", "mask_xy[mask_xy>radius]=0", "mask_xy[mask_xy>0]=1",
-                "mask_xy[center[0],center[1]]=1"],
-    "cylSlab": ["z_start=max(center[2]-height,0)", "z_end=min(center[2]+height+1,mask_size[2])", "if:z_end>z_start",
-                "mask[:,:,z_start:z_end]=np.tile(mask_xy[:,:,None],(1,1,z_end-z_start))"],
-    "ellGrid": ["xi=tuple((np.linspace(1,s,s)-np.floor(0.5*s)forsinmask_shape))", "xi=np.meshgrid(*xi,indexing='ij')",
-                "points=np.array(xi).reshape(3,-1)[::-1]", "grid_center=0.5*mask_shape-center",
-                "grid_center=np.tile(grid_center.reshape(3,1),(1,points.shape[1]))", "points=points[:,::-1]",
-                "grid_center=grid_center[::-1]"],
-    "ellRadii": ["radii=get_correct_format(radii,reference_size=mask_shape)", "radii=preprocess_params(radii,gaussian,gaussian_outwards)",
-                 "radii=radii[::-1]", "radii=np.tile(radii.reshape(3,1),(1,points.shape[1]))"],
-    "ellTest": ["ellipsoid=(points-grid_center)**2", "ellipsoid=ellipsoid/radii**2",
-                "distance=np.sum(ellipsoid,axis=0).reshape(mask_shape)", "mask=distance<=1"],
-    "sShell": ["radius=np.amin(mask_size)//2", "shell_thickness=shell_thickness/2",
-               "sp1=spherical_mask(mask_size,radius=radius+shell_thickness,center=center)",
-               "sp2=spherical_mask(mask_size,radius=radius-shell_thickness,center=center)", "shell_mask=sp1-sp2"],
-    "eShell": ["radii=get_correct_format(radii,reference_size=mask_size)", "shell_thickness=shell_thickness/2",
-               "e1=ellipsoid_mask(mask_size,radii=radii+shell_thickness,center=center)",
-               "e2=ellipsoid_mask(mask_size,radii=radii-shell_thickness,center=center)", "shell_mask=e1&~e2"],
-    "formatInt": ["returnnp.asarray(unformatted_value).astype(int)", "returnnp.full((3,),unformatted_value).astype(int)",
-                  "returnnp.full((3,),unformatted_value).astype(int)"],
-    "formatDefault": ["size_correct_format=box_size//2"],
-    "unionOps": ["final_mask=np.zeros(cryomap.read(mask_list[0]).shape)", "for:mask_list", "mask=cryomap.read(m)", "final_mask+=mask",
-                 "final_mask=np.clip(final_mask,0.0,1.0)", "returnfinal_mask"],
-    "interOps": ["final_mask=np.ones(cryomap.read(mask_list[0]).shape)", "for:mask_list", "mask=cryomap.read(m)", "final_mask*=mask",
-                 "final_mask=np.clip(final_mask,0.0,1.0)", "returnfinal_mask"],
-    "subOps": ["final_mask=cryomap.read(mask_list[0])", "for:mask_list[1:]", "mask=cryomap.read(m)", "final_mask-=mask",
-               "final_mask=np.clip(final_mask,0.0,1.0)", "returnfinal_mask"],
-    "diffOps": ["union_mask=union(mask_list)", "inter_mask=intersection(mask_list)", "final_mask=union_mask-inter_mask",
-                "final_mask=np.clip(final_mask,0.0,1.0)", "returnfinal_mask"],
-    "readCopies": ["data=np.array(data,copy=True)"],
-    "gaussOps": ["if:sigma==0", "returninput_mask", "returnfilters.gaussian(input_mask,sigma=sigma)"],
-    "genSize": ["if:mask_sizeisNone", "mask_size=2*np.max(specs)+mask_expansion", "mask_size=math.ceil(mask_size/2)*2",
-                "mask_size=math.ceil((mask_size+specs[1])/2)*2"],
-    "genCalls": ["if:shape=='sphere'", "mask=spherical_mask(mask_size=mask_size,radius=specs[0])", "if:shape=='cylinder'",
-                 "mask=cylindrical_mask(mask_size=mask_size,radius=specs[0],height=specs[1])", "if:shape=='s_shell'",
-                 "mask=spherical_shell_mask(mask_size=mask_size,shell_thickness=specs[1],radius=specs[0])", "if:shape=='ellipsoid'",
-                 "mask=ellipsoid_mask(mask_size=mask_size,radii=specs)", "if:shape=='e_shell'",
-                 "mask=ellipsoid_shell_mask(mask_size=mask_size,shell_thickness=specs[3],radii=specs[0:3])"],
-    "parsePatterns": ["sphere", r"^sphere_r(\d+)$", "cylinder", r"^cylinder_r(\d+)_h(\d+)$", "s_shell", r"^s_shell_r(\d+)_s(\d+)$",
-                      "ellipsoid", r"^ellipsoid_rx(\d+)_ry(\d+)_rz(\d+)$", "e_shell", r"^e_shell_rx(\d+)_ry(\d+)_rz(\d+)_s(\d+)$"],
-}
-
-
+DOC_SIG = {'parse_shape_string': ['shape_string'],
+ 'generate_mask': ['mask_shape', 'mask_size=None', 'mask_expansion=4'],
+ 'add_gaussian': ['input_mask', 'sigma'],
+ 'rotate': ['input_mask', 'angles'],
+ 'postprocess': ['input_mask', 'gaussian', 'angles', 'output_name'],
+ 'union': ['mask_list', 'output_name=None'],
+ 'intersection': ['mask_list', 'output_name=None'],
+ 'subtraction': ['mask_list', 'output_name=None'],
+ 'difference': ['mask_list', 'output_name=None'],
+ 'spherical_shell_mask': ['mask_size', 'shell_thickness', 'radius=None', 'center=None', 'gaussian=0.0', 'output_name=None'],
+ 'spherical_mask': ['mask_size', 'radius=None', 'center=None', 'gaussian=0.0', 'gaussian_outwards=True', 'output_name=None'],
+ 'cylindrical_mask': ['mask_size',
+                      'radius=None',
+                      'height=None',
+                      'center=None',
+                      'gaussian=0',
+                      'gaussian_outwards=True',
+                      'angles=None',
+                      'output_name=None'],
+ 'get_correct_format': ['input_value', 'reference_size=None'],
+ 'ellipsoid_shell_mask': ['mask_size', 'shell_thickness', 'radii', 'center=None', 'gaussian=0.0', 'angles=None', 'output_name=None'],
+ 'ellipsoid_mask': ['mask_size', 'radii=None', 'center=None', 'gaussian=0', 'output_name=None', 'angles=None', 'gaussian_outwards=True'],
+ 'preprocess_params': ['radius', 'gaussian', 'gaussian_outwards'],
+ 'cryomap_read': ['input_map', 'transpose=True', 'data_type=None']}
+DOC_BODY = {'parse_shape_string': ["v0={'sphere':'^sphere_r(\\\\d+)$','cylinder':'^cylinder_r(\\\\d+)_h(\\\\d+)$','s_shell':'^s_shell_r(\\\\d+)_s(\\\\d+)$','ellipsoid':'^ellipsoid_rx(\\\\d+)_ry(\\\\d+)_rz(\\\\d+)$','e_shell':'^e_shell_rx(\\\\d+)_ry(\\\\d+)_rz(\\\\d+)_s(\\\\d+)$'}",
+                        'for:(v1,v2):v0.items()',
+                        'v3=re.match(v2,shape_string)',
+                        'if:v3',
+                        'v4=[int(v5)forv5inv3.groups()]',
+                        'return(v1,v4)',
+                        'end',
+                        'end',
+                        'raiseValueError(f"String\'{shape_string}\'doesnotmatchanyknownshapepattern.")'],
+ 'generate_mask': ['v0,v1=parse_shape_string(mask_shape)',
+                   'if:mask_sizeisNone',
+                   'mask_size=2*np.max(v1)+mask_expansion',
+                   'mask_size=math.ceil(mask_size/2)*2',
+                   'end',
+                   "if:v0=='sphere'",
+                   'v2=spherical_mask(mask_size=mask_size,radius=v1[0])',
+                   'else:',
+                   "if:v0=='cylinder'",
+                   'v2=cylindrical_mask(mask_size=mask_size,radius=v1[0],height=v1[1])',
+                   'else:',
+                   "if:v0=='s_shell'",
+                   'mask_size=math.ceil((mask_size+v1[1])/2)*2',
+                   'v2=spherical_shell_mask(mask_size=mask_size,shell_thickness=v1[1],radius=v1[0])',
+                   'else:',
+                   "if:v0=='ellipsoid'",
+                   'v2=ellipsoid_mask(mask_size=mask_size,radii=v1)',
+                   'else:',
+                   "if:v0=='e_shell'",
+                   'v2=ellipsoid_shell_mask(mask_size=mask_size,shell_thickness=v1[3],radii=v1[0:3])',
+                   'end',
+                   'end',
+                   'end',
+                   'end',
+                   'end',
+                   'returnv2'],
+ 'add_gaussian': ['if:sigma==0', 'returninput_mask', 'else:', 'returnfilters.gaussian(input_mask,sigma=sigma)', 'end'],
+ 'rotate': ['if:anglesisNoneornotnp.any(angles)', 'returninput_mask', 'else:', 'returncryomap.rotate(input_mask,rotation_angles=angles)', 'end'],
+ 'postprocess': ['v0=add_gaussian(input_mask,gaussian)', 'v0=rotate(v0,angles)', 'write_out(v0,output_name)', 'returnv0'],
+ 'union': ['v0=np.zeros(cryomap.read(mask_list[0]).shape)',
+           'for:v1:mask_list',
+           'v2=cryomap.read(v1)',
+           'v0+=v2',
+           'end',
+           'v0=np.clip(v0,0.0,1.0)',
+           'write_out(v0,output_name)',
+           'returnv0'],
+ 'intersection': ['v0=np.ones(cryomap.read(mask_list[0]).shape)',
+                  'for:v1:mask_list',
+                  'v2=cryomap.read(v1)',
+                  'v0*=v2',
+                  'end',
+                  'v0=np.clip(v0,0.0,1.0)',
+                  'write_out(v0,output_name)',
+                  'returnv0'],
+ 'subtraction': ['v0=cryomap.read(mask_list[0]).astype(float)',
+                 'for:v1:mask_list[1:]',
+                 'v2=cryomap.read(v1)',
+                 'v0-=v2',
+                 'end',
+                 'v0=np.clip(v0,0.0,1.0)',
+                 'write_out(v0,output_name)',
+                 'returnv0'],
+ 'difference': ['v0=union(mask_list)', 'v1=intersection(mask_list)', 'v2=v0-v1', 'v2=np.clip(v2,0.0,1.0)', 'write_out(v2,output_name)', 'returnv2'],
+ 'spherical_shell_mask': ['mask_size=get_correct_format(mask_size)',
+                          'center=get_correct_format(center,reference_size=mask_size)',
+                          'if:radiusisNone',
+                          'radius=np.amin(mask_size)//2',
+                          'end',
+                          'shell_thickness=shell_thickness/2',
+                          'v0=spherical_mask(mask_size,radius=radius+shell_thickness,center=center)',
+                          'v1=spherical_mask(mask_size,radius=radius-shell_thickness,center=center)',
+                          'v2=v0-v1',
+                          'v2=postprocess(v2,gaussian,np.asarray([0,0,0]),output_name)',
+                          'returnv2'],
+ 'spherical_mask': ['mask_size=get_correct_format(mask_size)',
+                    'center=get_correct_format(center,reference_size=mask_size)',
+                    'if:radiusisNone',
+                    'radius=np.amin(mask_size)//2',
+                    'end',
+                    'radius=preprocess_params(radius,gaussian,gaussian_outwards)',
+                    'v0,v1,v2=np.mgrid[0:mask_size[0]:1,0:mask_size[1]:1,0:mask_size[2]:1]',
+                    'v3=np.sqrt((v0-center[0])**2+(v1-center[1])**2+(v2-center[2])**2)',
+                    'v3[v3>radius]=0',
+                    'v3[v3>0]=1',
+                    'v3[center[0],center[1],center[2]]=1',
+                    'v3=postprocess(v3,gaussian,np.asarray([0,0,0]),output_name)',
+                    'returnv3'],
+ 'cylindrical_mask': ['mask_size=get_correct_format(mask_size)',
+                      'center=get_correct_format(center,reference_size=mask_size)',
+                      'if:radiusisNone',
+                      'radius=np.amin(mask_size[:2])//2',
+                      'end',
+                      'if:heightisNone',
+                      'height=mask_size[2]',
+                      'end',
+                      'height=height//2',
+                      'radius=preprocess_params(radius,gaussian,gaussian_outwards)',
+                      'height=preprocess_params(height,gaussian,gaussian_outwards)',
+                      'v0,v1=np.mgrid[0:mask_size[0]:1,0:mask_size[1]:1]',
+                      'v2=np.sqrt((v0-center[0])**2+(v1-center[1])**2)',
+                      'v2[v2>radius]=0',
+                      'v2[v2>0]=1',
+                      'v2[center[0],center[1]]=1',
+                      'v3=np.zeros(mask_size)',
+                      'v4=max(center[2]-height,0)',
+                      'v5=min(center[2]+height+1,mask_size[2])',
+                      'if:v5>v4',
+                      'v3[:,:,v4:v5]=np.tile(v2[:,:,None],(1,1,v5-v4))',
+                      'end',
+                      'v3=postprocess(v3,gaussian,angles,output_name)',
+                      'returnv3'],
+ 'get_correct_format': ['def:v0(v1)',
+                        'if:isinstance(v1,(tuple,list,np.ndarray))',
+                        'if:len(v1)==3',
+                        'returnnp.asarray(v1).astype(int)',
+                        'else:',
+                        'if:len(v1)==1',
+                        'returnnp.full((3,),v1).astype(int)',
+                        'else:',
+                        "raiseValueError('Thesizehavetobeasinglenumberorhavetohavelengthof3!')",
+                        'end',
+                        'end',
+                        'else:',
+                        'if:isinstance(v1,(float,int))',
+                        'returnnp.full((3,),v1).astype(int)',
+                        'end',
+                        'end',
+                        'end',
+                        'if:input_valueisnotNone',
+                        'v2=v0(input_value)',
+                        'else:',
+                        'if:reference_sizeisnotNone',
+                        'v3=v0(reference_size)',
+                        'v2=v3//2',
+                        'else:',
+                        "raiseValueError('Eitherinput_sizeorreferene_sizehavetobespecified')",
+                        'end',
+                        'end',
+                        'returnv2'],
+ 'ellipsoid_shell_mask': ['mask_size=get_correct_format(mask_size)',
+                          'center=get_correct_format(center,reference_size=mask_size)',
+                          'radii=get_correct_format(radii,reference_size=mask_size)',
+                          'shell_thickness=shell_thickness/2',
+                          'v0=ellipsoid_mask(mask_size,radii=radii+shell_thickness,center=center)',
+                          'v1=ellipsoid_mask(mask_size,radii=radii-shell_thickness,center=center)',
+                          'v2=v0&~v1',
+                          'v2=postprocess(v2,gaussian,angles,output_name)',
+                          'returnv2'],
+ 'ellipsoid_mask': ['v0=get_correct_format(mask_size)',
+                    'center=get_correct_format(center,reference_size=v0)',
+                    'radii=get_correct_format(radii,reference_size=v0)',
+                    'radii=preprocess_params(radii,gaussian,gaussian_outwards)',
+                    'v1=tuple((np.linspace(1,v2,v2)-np.floor(0.5*v2)forv2inv0))',
+                    "v1=np.meshgrid(*v1,indexing='ij')",
+                    'v3=np.array(v1).reshape(3,-1)[::-1]',
+                    'v4=0.5*v0-center',
+                    'v4=np.tile(v4.reshape(3,1),(1,v3.shape[1]))',
+                    'v3=v3[:,::-1]',
+                    'v4=v4[::-1]',
+                    'radii=radii[::-1]',
+                    'radii=np.tile(radii.reshape(3,1),(1,v3.shape[1]))',
+                    'v5=(v3-v4)**2',
+                    'v5=v5/radii**2',
+                    'v6=np.sum(v5,axis=0).reshape(v0)',
+                    'v7=v6<=1',
+                    'v7=postprocess(v7,gaussian,angles,output_name)',
+                    'returnv7'],
+ 'preprocess_params': ['v0=5.0',
+                       'if:gaussian!=0.0andgaussian_outwards',
+                       'v1=np.ceil(radius+gaussian*v0).astype(int)',
+                       'else:',
+                       'v1=radius',
+                       'end',
+                       'returnv1'],
+ 'cryomap_read': ['if:isinstance(input_map,str)',
+                  'def:v0(v1)',
+                  "v2='\\\\.(mrc|ali|rec|st)(\\\\.\\\\d+)?$'",
+                  'returnbool(re.search(v2,v1))',
+                  'end',
+                  'if:v0(input_map)',
+                  'v3=mrcfile.open(input_map).data',
+                  'else:',
+                  "if:input_map.endswith('.em')",
+                  'v3=emfile.read(input_map)[1]',
+                  'else:',
+                  "raiseValueError('Theinputmapfilename',input_map,'isneitheremormrcfile!')",
+                  'end',
+                  'end',
+                  'if:transpose',
+                  'v3=v3.transpose(2,1,0)',
+                  'end',
+                  'else:',
+                  'if:isinstance(input_map,np.ndarray)',
+                  'v3=np.array(input_map)',
+                  'else:',
+                  "raiseValueError(f'Inputmapmustbepathtovalidfileornparray')",
+                  'end',
+                  'end',
+                  'v3=np.array(v3,copy=True)',
+                  'if:data_typeisnotNone',
+                  'v3=v3.astype(data_type)',
+                  'end',
+                  'returnv3']}
+DOC_PATTERNS = ['sphere',
+ '^sphere_r(\\d+)$',
+ 'cylinder',
+ '^cylinder_r(\\d+)_h(\\d+)$',
+ 's_shell',
+ '^s_shell_r(\\d+)_s(\\d+)$',
+ 'ellipsoid',
+ '^ellipsoid_rx(\\d+)_ry(\\d+)_rz(\\d+)$',
+ 'e_shell',
+ '^e_shell_rx(\\d+)_ry(\\d+)_rz(\\d+)_s(\\d+)$']
 # ------------------------------------------------------------------ translator
-def _stmts(node):
-    """normalised simple statements of a function body in source order (`if:`/`for:` mark the tests/iterables)"""
+FUNCS = [  # (key used in Gen/C13.lean, file, function)
+    ("parse_shape_string", REL, "parse_shape_string"), ("generate_mask", REL, "generate_mask"), ("add_gaussian", REL, "add_gaussian"),
+    ("rotate", REL, "rotate"), ("postprocess", REL, "postprocess"), ("union", REL, "union"), ("intersection", REL, "intersection"),
+    ("subtraction", REL, "subtraction"), ("difference", REL, "difference"), ("spherical_shell_mask", REL, "spherical_shell_mask"),
+    ("spherical_mask", REL, "spherical_mask"), ("cylindrical_mask", REL, "cylindrical_mask"), ("get_correct_format", REL, "get_correct_format"),
+    ("ellipsoid_shell_mask", REL, "ellipsoid_shell_mask"), ("ellipsoid_mask", REL, "ellipsoid_mask"), ("preprocess_params", REL, "preprocess_params"),
+    ("cryomap_read", "cryocat/cryomap.py", "read"),
+]
+
+
+def _ordered(node):
+    """pre-order walk in source order"""
+    yield node
+    for ch in ast.iter_child_nodes(node):
+        yield from _ordered(ch)
+
+
+def _canon(fn):
+    """(signature, body) of a function as lists of strings.  Parameters keep their names (callers use them as
+    keywords); every other name bound inside the function (assignment / loop / comprehension targets, inner
+    functions and their parameters) is replaced by v0, v1, ... in order of first binding, so renaming a local
+    variable changes nothing.  The body is the complete statement list: `if:`/`else:`/`end`, `for:` ... mark the
+    structure, docstrings are dropped."""
+    import copy
+    fn = copy.deepcopy(fn)
+    a = fn.args
+    params = [x.arg for x in a.posonlyargs + a.args + a.kwonlyargs] + ([a.vararg.arg] if a.vararg else []) + ([a.kwarg.arg] if a.kwarg else [])
+    pos = a.posonlyargs + a.args
+    dflt = [None] * (len(pos) - len(a.defaults)) + list(a.defaults)
+    sig = [p.arg + ("" if d is None else "=" + core.norm_expr(d)) for p, d in zip(pos, dflt)]
+    sig += ["*" + a.vararg.arg] if a.vararg else []
+    sig += [p.arg + ("" if d is None else "=" + core.norm_expr(d)) for p, d in zip(a.kwonlyargs, a.kw_defaults)]
+    sig += ["**" + a.kwarg.arg] if a.kwarg else []
+    names = {}
+
+    def bind(n):
+        if n not in params and n not in names:
+            names[n] = f"v{len(names)}"
+
+    for st in fn.body:
+        for n in _ordered(st):
+            if isinstance(n, ast.Name) and isinstance(n.ctx, (ast.Store, ast.Del)):
+                bind(n.id)
+            elif isinstance(n, (ast.FunctionDef, ast.AsyncFunctionDef, ast.ClassDef)):
+                bind(n.name)
+            elif isinstance(n, ast.arg):
+                bind(n.arg)
+            elif isinstance(n, ast.ExceptHandler) and n.name:
+                bind(n.name)
+    for st in fn.body:
+        for n in _ordered(st):
+            if isinstance(n, ast.Name) and n.id in names:
+                n.id = names[n.id]
+            elif isinstance(n, (ast.FunctionDef, ast.AsyncFunctionDef, ast.ClassDef)) and n.name in names:
+                n.name = names[n.name]
+            elif isinstance(n, ast.arg) and n.arg in names:
+                n.arg = names[n.arg]
+            elif isinstance(n, ast.ExceptHandler) and n.name in names:
+                n.name = names[n.name]
     out = []
 
     def walk(body):
         for st in body:
             if isinstance(st, ast.Expr) and isinstance(st.value, ast.Constant) and isinstance(st.value.value, str):
                 continue
-            if isinstance(st, (ast.FunctionDef, ast.ClassDef)):
-                walk(st.body)
+            if isinstance(st, (ast.FunctionDef, ast.AsyncFunctionDef)):
+                out.append("def:" + st.name + "(" + ",".join(x.arg for x in st.args.args) + ")")
+                walk(st.body); out.append("end")
             elif isinstance(st, ast.If):
                 out.append("if:" + core.norm_expr(st.test))
-                walk(st.body); walk(st.orelse)
-            elif isinstance(st, ast.For):
-                out.append("for:" + core.norm_expr(st.iter))
-                walk(st.body); walk(st.orelse)
-            elif isinstance(st, (ast.While, ast.With, ast.Try)):
-                out.append("block:" + type(st).__name__)
-                for b in ("body", "orelse", "finalbody"):
-                    walk(getattr(st, b, []))
+                walk(st.body)
+                if st.orelse:
+                    out.append("else:"); walk(st.orelse)
+                out.append("end")
+            elif isinstance(st, (ast.For, ast.AsyncFor)):
+                out.append("for:" + core.norm_expr(st.target) + ":" + core.norm_expr(st.iter))
+                walk(st.body)
+                if st.orelse:
+                    out.append("else:"); walk(st.orelse)
+                out.append("end")
+            elif isinstance(st, ast.While):
+                out.append("while:" + core.norm_expr(st.test))
+                walk(st.body)
+                if st.orelse:
+                    out.append("else:"); walk(st.orelse)
+                out.append("end")
+            elif isinstance(st, (ast.With, ast.AsyncWith)):
+                out.append("with:" + ",".join(core.norm_expr(i) for i in st.items))
+                walk(st.body); out.append("end")
+            elif isinstance(st, ast.Try):
+                out.append("try:"); walk(st.body)
+                for h in st.handlers:
+                    out.append("except:" + (core.norm_expr(h.type) if h.type else "") + (":" + h.name if h.name else ""))
+                    walk(h.body)
+                if st.orelse:
+                    out.append("else:"); walk(st.orelse)
+                if st.finalbody:
+                    out.append("finally:"); walk(st.finalbody)
+                out.append("end")
             else:
                 out.append(core.norm_expr(st).replace("\n", ""))
-    walk(node.body)
+    walk(fn.body)
+    return sig, out
+
+
+def _blur_factor(body):
+    """structural: the multiplier X of np.ceil(radius + gaussian * X); a literal, or a local bound to a literal"""
+    for s in body:
+        m = re.search(r"np\.ceil\(radius\+gaussian\*([\w.]+)\)", s)
+        if m:
+            x = m.group(1)
+            if re.fullmatch(r"v\d+", x):
+                for t in body:
+                    mm = re.fullmatch(re.escape(x) + r"=([-+\d.eE]+)", t)
+                    if mm:
+                        x = mm.group(1); break
+                else:
+                    raise core.AnchorMissing(f"preprocess_params: {x} is not bound to a literal")
+            try:
+                return Fraction(x)
+            except Exception:
+                raise core.AnchorMissing(f"preprocess_params: multiplier {x!r} is not a number")
+    raise core.AnchorMissing("preprocess_params: no np.ceil(radius + gaussian * <factor>)")
+
+
+def _patterns(src):
+    node = src.find(REL, "parse_shape_string")
+    for st in node.body:
+        if isinstance(st, ast.Assign) and isinstance(st.value, ast.Dict):
+            d = src.literal(st.value)
+            if isinstance(d, dict) and d and all(isinstance(k, str) and isinstance(v, str) for k, v in d.items()):
+                return [x for kv in d.items() for x in kv]
+    raise core.AnchorMissing("parse_shape_string: <name> = {str: str literal}")
+
+
+def _labels(flat):
+    """compile `^lit(\\d+)lit(\\d+)...$` into its literal pieces"""
+    out = []
+    for name, pat in zip(flat[0::2], flat[1::2]):
+        if not (pat.startswith("^") and pat.endswith("$")):
+            raise core.AnchorMissing(f"pattern {pat!r} is not anchored ^...$")
+        pieces = pat[1:-1].split(r"(\d+)")
+        if pieces[-1] != "" or len(pieces) < 2 or not all(re.fullmatch(r"[a-z_]+", p) for p in pieces[:-1]):
+            raise core.AnchorMissing(f"pattern {pat!r} is not of the form ^label(\\d+)...(\\d+)$")
+        out.append((name, pieces[:-1]))
     return out
 
 
-def _pick(src, fn, pattern, name):
-    node = src.find(REL if not fn.startswith("cryomap:") else "cryocat/cryomap.py", fn.split(":")[-1])
-    got = [s for s in _stmts(node) if re.search(pattern, s)]
-    if not got:
-        raise core.AnchorMissing(f"{fn}: no statement matching {pattern}")
-    return got
+def _lean_labels(labels):
+    def chars(s):
+        return "[" + ", ".join("'" + c + "'" for c in s) + "]"
+    return "[" + ", ".join("(" + core.lean_str(n) + ", [" + ", ".join(chars(p) for p in ps) + "])" for n, ps in labels) + "]"
 
 
 def translate(src):
-    vals = {}
-
-    def anchor(key, fn, pattern):
-        v = src.anchor(f"{fn}:{key}", lambda: _pick(src, fn, pattern, key))
-        vals[key] = v if isinstance(v, list) else DOC[key]
-
-    def blur():
-        node = src.find(REL, "preprocess_params")
-        for st in node.body:
-            if isinstance(st, ast.Assign) and any(isinstance(t, ast.Name) and t.id == "blur_factor" for t in st.targets):
-                v = src.literal(st.value)
-                if isinstance(v, (int, float)):
-                    return repr(v)
-        raise core.AnchorMissing("preprocess_params: blur_factor = <const>")
-
-    bf = src.anchor("preprocess_params:blur_factor", blur)
-    fr = Fraction(bf) if bf is not None else Fraction(5)
-    anchor("preprocessCond", "preprocess_params", r"^if:")
-    anchor("preprocessRadius", "preprocess_params", r"^new_radius=")
-    anchor("sphereDist", "spherical_mask", r"^mask=np\.sqrt")
-    anchor("sphereCuts", "spherical_mask", r"^mask\[")
-    anchor("sphereParams", "spherical_mask", r"^radius=")
-    anchor("cylParams", "cylindrical_mask", r"^(radius|height)=")
-    anchor("cylDisc", "cylindrical_mask", r"^mask_xy(=|\[)")
-    anchor("cylSlab", "cylindrical_mask", r"^(z_start=|z_end=|if:.*z_|mask\[)")
-    anchor("ellGrid", "ellipsoid_mask", r"^(xi|points|grid_center)=")
-    anchor("ellRadii", "ellipsoid_mask", r"^radii=")
-    anchor("ellTest", "ellipsoid_mask", r"^(ellipsoid=|distance=|mask=distance)")
-    anchor("sShell", "spherical_shell_mask", r"^(radius=|shell_thickness=|sp1=|sp2=|shell_mask=sp)")
-    anchor("eShell", "ellipsoid_shell_mask", r"^(radii=|shell_thickness=|e1=|e2=|shell_mask=e)")
-    anchor("formatInt", "get_correct_format", r"^returnnp\.")
-    anchor("formatDefault", "get_correct_format", r"^size_correct_format=box_size")
-    anchor("unionOps", "union", r"^(final_mask|mask=|for:|return)")
-    anchor("interOps", "intersection", r"^(final_mask|mask=|for:|return)")
-    anchor("subOps", "subtraction", r"^(final_mask|mask=|for:|return)")
-    anchor("diffOps", "difference", r"^(final_mask|union_mask|inter_mask|return)")
-    anchor("readCopies", "cryomap:read", r"^data=np\.\w+\(data\b")
-    anchor("gaussOps", "add_gaussian", r"^(if:|return)")
-    anchor("genSize", "generate_mask", r"^(if:mask_size|mask_size=)")
-    anchor("genCalls", "generate_mask", r"^(if:shape|mask=)")
-
-    def patterns():
-        node = src.find(REL, "parse_shape_string")
-        for st in node.body:
-            if isinstance(st, ast.Assign) and any(isinstance(t, ast.Name) and t.id == "patterns" for t in st.targets):
-                d = src.literal(st.value)
-                if isinstance(d, dict) and all(isinstance(k, str) and isinstance(v, str) for k, v in d.items()):
-                    return [x for kv in d.items() for x in kv]
-        raise core.AnchorMissing("parse_shape_string: patterns = {literal}")
-
-    pp = src.anchor("parse_shape_string:patterns", patterns)
-    vals["parsePatterns"] = pp if isinstance(pp, list) else DOC["parsePatterns"]
+    sigs, bodies = {}, {}
+    for key, rel, fn in FUNCS:
+        v = src.anchor(f"{fn}:signature+body", lambda: _canon(src.find(rel, fn)))
+        if isinstance(v, tuple):
+            sigs[key], bodies[key] = v
+        else:
+            sigs[key], bodies[key] = DOC_SIG[key], DOC_BODY[key]      # documented value, the anchor is recorded as missing
+    bf = src.anchor("preprocess_params:blur_factor", lambda: str(_blur_factor(bodies["preprocess_params"])))
+    fr = Fraction(bf) if bf is not None else Fraction(DOC_BLUR)
 
     def expansion():
-        node = src.find(REL, "generate_mask")
-        args = node.args
-        names = [a.arg for a in args.args]
-        defaults = dict(zip(names[len(names) - len(args.defaults):], args.defaults))
-        if names[:3] != ["mask_shape", "mask_size", "mask_expansion"]:
-            raise core.AnchorMissing("generate_mask(mask_shape, mask_size, mask_expansion)")
-        v = src.literal(defaults["mask_expansion"])
-        if not isinstance(v, int) or src.literal(defaults["mask_size"]) is not None:
-            raise core.AnchorMissing("generate_mask defaults")
-        return v
+        for s in sigs["generate_mask"]:
+            m = re.fullmatch(r"mask_expansion=(\d+)", s)
+            if m:
+                return int(m.group(1))
+        raise core.AnchorMissing("generate_mask(..., mask_expansion=<int>)")
 
     exp = src.anchor("generate_mask:mask_expansion-default", expansion)
+    pp = src.anchor("parse_shape_string:patterns", lambda: _patterns(src))
+    pp = pp if isinstance(pp, list) else DOC_PATTERNS
+    lab = src.anchor("parse_shape_string:labels", lambda: [[n] + ps for n, ps in _labels(pp)])
+    labels = [(x[0], x[1:]) for x in lab] if isinstance(lab, list) else _labels(DOC_PATTERNS)
     lines = [f"-- GENERATED by harness/props/c13.py from {REL}; do not edit",
              "namespace CryoCat.Gen.C13",
              f"def anchorsOk : Bool := {'true' if src.ok else 'false'}",
              f"def blurFactorNum : Int := {fr.numerator}",
              f"def blurFactorDen : Nat := {fr.denominator}",
-             f"def maskExpansionDefault : Nat := {exp if isinstance(exp, int) and exp >= 0 else 0}"]
-    for k in DOC:
-        lines.append(f"def {k} : List String := {core.lean_str_list(vals[k])}")
+             f"def maskExpansionDefault : Nat := {exp if isinstance(exp, int) and exp >= 0 else DOC_EXPANSION}",
+             f"def parsePatterns : List String := {core.lean_str_list(pp)}",
+             f"def shapeLabels : List (String × List (List Char)) := {_lean_labels(labels)}"]
+    for key, _, _ in FUNCS:
+        lines.append(f"def sig_{key} : List String := {core.lean_str_list(sigs[key])}")
+        lines.append(f"def body_{key} : List String := {core.lean_str_list(bodies[key])}")
     lines.append("end CryoCat.Gen.C13")
     return "\n".join(lines) + "\n"
 
@@ -236,6 +513,29 @@ def _str2arr(s, shape):
     return out.reshape(shape)
 
 
+def _where(e):
+    """innermost traceback frame inside the library ('' when the exception never passed through /cryocat/)"""
+    for fr in reversed(traceback.extract_tb(e.__traceback__)):
+        if "/cryocat/" in fr.filename:
+            return f"{os.path.basename(fr.filename)}:{fr.lineno}"
+    return ""
+
+
+def _err(e):
+    return {"error": f"{type(e).__name__}: {str(e)[:300]}", "where": _where(e)}
+
+
+def _raised(obs, model, outside_quantifier=False):
+    """findings for an observation that is an exception (G4: only a frame inside /cryocat/ makes it the library's)"""
+    if not obs.get("where"):
+        return [dict(kind="corr", clause="harness-or-library-raised", detail=f"{obs['error']} (no traceback frame inside /cryocat/)")]
+    if isinstance(model, dict) and str(model.get("error", "")).startswith("reject"):
+        return []      # the model says the real code raises here (outside the property's quantifier)
+    if outside_quantifier:
+        return [dict(kind="corr", clause="raises-where-model-does-not", detail=obs["error"] + " @" + obs["where"])]
+    return [dict(kind="spec", clause="raises", detail=obs["error"] + " @" + obs["where"])]
+
+
 # ------------------------------------------------------------------ the statement, evaluated independently (integers)
 def _sphere(box, c, r):
     """voxels with distance <= r (r a Fraction >= 0)"""
@@ -254,14 +554,21 @@ def _cylinder(box, c, r, height):
 
 
 def _ellipsoid(box, c, radii):
-    """(inside, tie): sum((i-c)/r)^2 <= 1 for integer radii > 0 on even boxes; tie = exactly on the surface with >= 2 non-zero terms"""
+    """(inside, tie): sum((i-c)/r)^2 <= 1 decided in integers for integer radii > 0 on even boxes; tie = voxels exactly on
+    the surface for which IEEE double evaluation of the same sum (correctly rounded quotients, added z, y, x) lands above 1:
+    only there does the outcome depend on rounding"""
     i, j, k = np.indices(box, dtype=np.int64)
     rx, ry, rz = [int(r) for r in radii]
     a, b, cc = (i - c[0]) ** 2, (j - c[1]) ** 2, (k - c[2]) ** 2
     lhs = a * (ry * ry * rz * rz) + b * (rx * rx * rz * rz) + cc * (rx * rx * ry * ry)
     rhs = rx * rx * ry * ry * rz * rz
-    nz = (a > 0).astype(int) + (b > 0).astype(int) + (cc > 0).astype(int)
-    return lhs <= rhs, (lhs == rhs) & (nz >= 2)
+    on = lhs == rhs
+    if on.any():
+        fl = (cc.astype(np.float64) / float(rz * rz) + b.astype(np.float64) / float(ry * ry)) + a.astype(np.float64) / float(rx * rx)
+        tie = on & ~(fl <= 1.0)
+    else:
+        tie = on
+    return lhs <= rhs, tie
 
 
 def _defaults(case):
@@ -335,8 +642,23 @@ def _name_to_shape(case):
 
 def _name_string(case):
     k, s = case["kind"], case["specs"]
+    pad = case.get("zeros") or [0] * len(s)
+    txt = ["0" * z + str(v) for v, z in zip(s, pad)]
     return {"sphere": "sphere_r{}", "cylinder": "cylinder_r{}_h{}", "s_shell": "s_shell_r{}_s{}", "ellipsoid": "ellipsoid_rx{}_ry{}_rz{}",
-            "e_shell": "e_shell_rx{}_ry{}_rz{}_s{}"}[k].format(*s)
+            "e_shell": "e_shell_rx{}_ry{}_rz{}_s{}"}[k].format(*txt) + ("\n" if case.get("newline") else "")
+
+
+def _bool_spec(fn, bs):
+    """the statement: OR, AND, AND-NOT, XOR (of all the masks: parity) voxel by voxel; dtype-free (Boolean arrays in, Boolean array out)"""
+    if fn == "union":
+        return np.logical_or.reduce(bs)
+    if fn == "intersection":
+        return np.logical_and.reduce(bs)
+    if fn == "subtraction":
+        return bs[0] & ~(np.logical_or.reduce(bs[1:]) if len(bs) > 1 else np.zeros(bs[0].shape, dtype=bool))
+    if fn == "difference":
+        return np.logical_xor.reduce(bs)
+    raise ValueError(fn)
 
 
 # ------------------------------------------------------------------ generators
@@ -387,12 +709,47 @@ def _gauss(rng):
     return [rng.choice([1, 2, 3, 4, 5, 6]), 2], rng.random() < 0.6
 
 
-def _shape_case(rng, tier):
-    kind = rng.choices(KINDS, weights=[26, 26, 22, 13, 13])[0]
-    g, ow = _gauss(rng)
+def _omit(rng, case):
+    """G1: a keyword whose value is the signature default is left out of the call in ~30 % of the cases"""
+    kind = case["kind"]
+    el = []
+    if case.get("center") is None:
+        el.append("center")
+    if kind in ("sphere", "cylinder", "s_shell") and case.get("radius") is None:
+        el.append("radius")
+    if kind == "cylinder" and case.get("height") is None:
+        el.append("height")
+    if kind == "ellipsoid" and case.get("radii") is None:
+        el.append("radii")
+    if case["gauss"][0] == 0:
+        el.append("gaussian")
+    if kind in ("sphere", "cylinder", "ellipsoid") and case.get("outwards", True):
+        el.append("gaussian_outwards")
+    return sorted(k for k in el if rng.random() < 0.3)
+
+
+def _blank(kind, box, g=(0, 1), ow=True):
+    return dict(t="shape", kind=kind, box=list(box), center=None, radius=None, height=None, radii=None, thick=[0, 1], gauss=list(g), outwards=ow)
+
+
+def _shape_case(rng, tier, hard=False, box=None, kinds=None):
+    k = rng.random()
+    if box is None and kinds is None and not hard:
+        if k < 0.04:
+            return _oversize_case(rng, tier)
+        if k < 0.08:
+            return _cyl34_case(rng, tier)
+        if k < 0.13:
+            return _ell_out_case(rng, tier)
+        if k < 0.15:
+            return _offbox_centre_case(rng, tier)
+    kind = rng.choices(KINDS, weights=[26, 26, 22, 13, 13])[0] if kinds is None else rng.choice(kinds)
+    g, ow = ([0, 1], True) if hard else _gauss(rng)
     soft = g[0] != 0
-    box = _box(rng, tier, even=kind in ("ellipsoid", "e_shell"), soft=soft)
-    case = dict(t="shape", kind=kind, box=box, center=_centre(rng, box), radius=None, height=None, radii=None, thick=[0, 1], gauss=g, outwards=ow)
+    if box is None:
+        box = _box(rng, tier, even=kind in ("ellipsoid", "e_shell"), soft=soft)
+    case = _blank(kind, box, g, ow)
+    case["center"] = _centre(rng, box)
     if kind == "sphere":
         case["radius"] = None if rng.random() < 0.08 else _radius(rng, box, frac=True)
     elif kind == "cylinder":
@@ -402,9 +759,10 @@ def _shape_case(rng, tier):
     elif kind == "ellipsoid":
         case["radii"] = None if rng.random() < 0.08 else [_radius(rng, box) for _ in range(3)]
     elif kind == "s_shell":
-        r = _radius(rng, box)
+        r = None if rng.random() < 0.08 else _radius(rng, box)
         case["radius"] = r
-        t = rng.randint(1, max(1, min(2 * r[0], 8)))     # inner radius r - t/2 >= 0
+        r0 = r[0] if r is not None else min(box) // 2
+        t = rng.randint(1, max(1, min(2 * r0, 8)))     # inner radius r - t/2 >= 0
         case["thick"] = [t, 1]
         case["outwards"] = True
     elif kind == "e_shell":
@@ -413,88 +771,275 @@ def _shape_case(rng, tier):
         t = rng.randint(1, max(1, min(2 * min(x[0] for x in rr) - 2, 8)))   # inner radii int(r - t/2) >= 1
         case["thick"] = [t, 1]
         case["outwards"] = True
+    case["omit"] = _omit(rng, case)
     return case
 
 
-def _name_case(rng, tier):
-    kind = rng.choice(KINDS)
+def _oversize_case(rng, tier):
+    """radius at least the largest box dimension, centre near a corner: some corner of the box is still farther away"""
+    kind = "sphere" if rng.random() < 0.7 else "s_shell"
+    box = _box(rng, tier, even=False)
+    c = [rng.choice([0, 1, b - 1, b - 2]) for b in box]
+    far = math.isqrt(sum(max(x, b - 1 - x) ** 2 for x, b in zip(c, box)))
+    m = max(box)
+    r = rng.randint(m, max(m, far))
+    case = _blank(kind, box)
+    case["center"] = c
+    if kind == "sphere":
+        case["radius"] = [r, 1] if rng.random() < 0.8 else [4 * r + rng.choice([1, 2, 3]), 4]
+    else:
+        t = rng.choice([2, 4, 6])
+        case["radius"] = [max(1, r - t // 2), 1]      # outer radius = r
+        case["thick"] = [t, 1]
+    case["omit"] = _omit(rng, case)
+    return case
+
+
+def _cyl34_case(rng, tier):
+    """heights 3, 7, 11, 15, ... (h/2 = x.5 with x odd) with both end slices inside the box"""
+    box = _box(rng, tier, even=False)
+    hs = [h for h in range(3, box[2] - 1, 4)] or [3]
+    h = rng.choice(hs)
+    lo, hi = h // 2 + 1, box[2] - h // 2 - 2
+    case = _blank("cylinder", box)
+    case["height"] = h
+    case["radius"] = _radius(rng, box, frac=True)
+    c = _centre(rng, box)
+    if c is not None and lo <= hi:
+        c[2] = rng.randint(lo, hi)
+    case["center"] = c
+    case["omit"] = _omit(rng, case)
+    return case
+
+
+def _ell_out_case(rng, tier):
+    """small ellipsoid, blurred outwards with a wide Gaussian, in a box that leaves room for the extension"""
+    hi = {"quick": 16, "thorough": 36, "search": 14}[tier]
+    box = [rng.choice([hi - 2, hi]) if rng.random() < 0.7 else 2 * rng.randint(4, hi // 2) for _ in range(3)]
+    case = _blank("ellipsoid", box, [rng.choice([3, 4, 5, 6]), 2], True)
+    case["radii"] = [[rng.randint(1, 3), 1] for _ in range(3)]
+    case["center"] = None if rng.random() < 0.5 else [b // 2 + rng.randint(-1, 1) for b in box]
+    case["omit"] = _omit(rng, case)
+    return case
+
+
+def _offbox_centre_case(rng, tier):
+    """OUTSIDE the quantifier (centres in the box): negative centre indices wrap in numpy, indices beyond the box raise;
+    judged against the model only"""
+    kind = rng.choice(["sphere", "cylinder", "s_shell"])
+    box = _box(rng, "quick" if tier != "search" else tier, even=False)
+    c = [rng.randrange(b) for b in box]
+    ax = rng.randrange(3 if kind != "cylinder" else 2)
+    c[ax] = rng.choice([-1, -2, -box[ax], -box[ax] - 1, box[ax], box[ax] + 3, -rng.randint(1, box[ax])])
+    case = _blank(kind, box)
+    case["center"] = c
+    case["radius"] = [rng.randint(1, max(box)), 1]
+    if kind == "cylinder":
+        case["height"] = rng.randint(1, box[2] + 4)
+    if kind == "s_shell":
+        case["thick"] = [rng.randint(1, min(2 * case["radius"][0], 6)), 1]
+    case["extra"] = "centre-outside-box"
+    case["omit"] = []
+    return case
+
+
+def _name_case(rng, tier, kind=None, specs=None):
+    kind = kind or rng.choice(KINDS)
     hi = {"quick": 6, "thorough": 20, "search": 5}[tier]
     n = {"sphere": 1, "cylinder": 2, "s_shell": 2, "ellipsoid": 3, "e_shell": 4}[kind]
-    specs = [rng.randint(1, hi) for _ in range(n)]
-    if kind == "s_shell":
-        specs[1] = rng.randint(1, max(1, min(2 * specs[0], 8)))
-    if kind == "e_shell":
-        specs = [max(2, s) for s in specs[:3]] + [rng.randint(1, max(1, min(2 * min(max(2, s) for s in specs[:3]) - 2, 8)))]
+    if specs is None:
+        specs = [rng.randint(1, hi) for _ in range(n)]
+        if kind == "cylinder" and rng.random() < 0.3:
+            specs[1] = rng.choice([3, 7, 11, 15])
+        if kind == "s_shell":
+            specs[1] = rng.randint(1, max(1, min(2 * specs[0], 8)))
+        if kind == "e_shell":
+            specs = [max(2, s) for s in specs[:3]] + [rng.randint(1, max(1, min(2 * min(max(2, s) for s in specs[:3]) - 2, 8)))]
     ms = None
     if rng.random() < 0.4:
         ms = rng.randint(6, {"quick": 16, "thorough": 40, "search": 14}[tier])
         if kind in ("ellipsoid", "e_shell"):
             ms += ms % 2
-    return dict(t="name", kind=kind, specs=specs, mask_size=ms, expansion=rng.choice([4, 4, 4, 0, 1, 3, 6]))
+    e = rng.choice([4, 4, 4, 0, 1, 3, 6])
+    omit = sorted(k for k, isdef in (("mask_size", ms is None), ("mask_expansion", e == 4)) if isdef and rng.random() < 0.5)
+    case = dict(t="name", kind=kind, specs=list(specs), mask_size=ms, expansion=e, omit=omit)
+    if rng.random() < 0.1:
+        case["zeros"] = [rng.choice([0, 1, 2]) for _ in specs]
+    if rng.random() < 0.03:
+        case["newline"] = True
+    return case
+
+
+def _vals(rng, n, flavour, dtype, prev):
+    """n float64 bit patterns of values exactly representable in `dtype`"""
+    if flavour == "binary":
+        style = rng.random()
+        if style < 0.1 and prev:
+            v = [b2f(b) for b in prev[rng.randrange(len(prev))]]
+        elif style < 0.2 and prev:
+            v = [1.0 - b2f(b) for b in prev[rng.randrange(len(prev))]]
+        elif style < 0.27:
+            v = [rng.choice([0.0, 1.0])] * n
+        else:
+            p = rng.choice([0.15, 0.5, 0.85])
+            v = [1.0 if rng.random() < p else 0.0 for _ in range(n)]
+    else:
+        if rng.random() < 0.5:
+            v = [rng.choice([0.0, 1.0, rng.random(), rng.randint(0, 16) / 16.0]) for _ in range(n)]
+        else:
+            v = [rng.random() for _ in range(n)]
+        if dtype == "float32":
+            v = [float(np.float32(x)) for x in v]
+    return [f2b(x) for x in v]
+
+
+def _pool(rng, shape, k, flavour):
+    n = int(np.prod(shape))
+    if flavour == "soft":
+        dts = [rng.choice(["float64", "float64", "float32"]) for _ in range(k)]
+    elif rng.random() < 0.5:
+        dts = [rng.choice(BIN_DTYPES)] * k
+    else:
+        dts = [rng.choice(BIN_DTYPES) for _ in range(k)]
+    masks, prev = [], []
+    for m in range(k):
+        if flavour == "soft" and prev and rng.random() < 0.15:
+            bits = _vals(rng, n, "binary", dts[m], [])
+        else:
+            bits = _vals(rng, n, flavour if flavour != "ctor" else "binary", dts[m], prev if flavour != "soft" else [])
+        prev.append(bits)
+        masks.append(dict(dtype=dts[m], bits=bits))
+    return masks
 
 
 def _algebra_case(rng, tier):
     hi = {"quick": 8, "thorough": 12, "search": 6}[tier]
-    shape = [rng.randint(2, hi) for _ in range(3)]
-    n = int(np.prod(shape))
     k = rng.choice([1, 2, 2, 2, 3, 3, 4, 5])
-    flavour = "binary" if rng.random() < 0.6 else "soft"
-    masks = []
-    for m in range(k):
-        if flavour == "binary":
-            style = rng.random()
-            if style < 0.1 and masks:
-                vals = list(masks[rng.randrange(len(masks))])          # a repeated mask
-            elif style < 0.2 and masks:
-                vals = [1.0 - v for v in masks[rng.randrange(len(masks))]]   # a complement
-            elif style < 0.27:
-                vals = [float(rng.random() < 0.5)] * n if False else [rng.choice([0.0, 1.0])] * n  # constant
-            else:
-                p = rng.choice([0.15, 0.5, 0.85])
-                vals = [1.0 if rng.random() < p else 0.0 for _ in range(n)]
-        else:
-            style = rng.random()
-            if style < 0.5:
-                vals = [rng.choice([0.0, 1.0, rng.random(), rng.randint(0, 16) / 16.0]) for _ in range(n)]
-            else:
-                vals = [rng.random() for _ in range(n)]
-        masks.append(vals)
-    return dict(t="algebra", fn=rng.choice(FNS), shape=shape, flavour=flavour, masks=[[f2b(v) for v in m] for m in masks])
+    f = rng.random()
+    flavour = "binary" if f < 0.5 else ("soft" if f < 0.75 else "ctor")
+    if rng.random() < 0.01:
+        return dict(t="algebra", fn=rng.choice(FNS), shape=[2, 2, 2], flavour="binary", masks=[], explicit_none=False, extra="empty-list")
+    if flavour == "ctor":
+        shape = [2 * rng.randint(3, max(3, hi // 2)) for _ in range(3)]
+        masks = _pool(rng, shape, k, "ctor")
+        for i in range(k):
+            if rng.random() < 0.7 or i == 0:
+                masks[i] = dict(ctor=_shape_case(rng, tier, hard=True, box=shape, kinds=KINDS))
+    else:
+        shape = [rng.randint(2, hi) for _ in range(3)]
+        masks = _pool(rng, shape, k, flavour)
+    return dict(t="algebra", fn=rng.choice(FNS), shape=shape, flavour=flavour, masks=masks, explicit_none=rng.random() < 0.3)
+
+
+def _session_case(rng, tier):
+    tier = "quick" if tier == "thorough" else tier      # sessions are about state carried between calls, not about size
+    k = rng.random()
+    if k < 0.4:      # one list of arrays through several functions, rewritten in place between the calls
+        hi = {"quick": 6, "thorough": 10, "search": 5}[tier]
+        shape = [rng.randint(2, hi) for _ in range(3)]
+        flavour = "binary" if rng.random() < 0.7 else "soft"
+        pool = _pool(rng, shape, rng.choice([2, 2, 3, 4]), flavour)
+        steps = []
+        for s in range(rng.choice([2, 3, 3, 4])):
+            st = dict(fn=rng.choice(FNS))
+            if s > 0 and rng.random() < 0.5:
+                i = rng.randrange(len(pool))
+                st["rewrite"] = dict(i=i, bits=_vals(rng, int(np.prod(shape)), flavour, pool[i]["dtype"], []))
+            steps.append(st)
+        return dict(t="session", mode="algebra", shape=shape, flavour=flavour, masks=pool, steps=steps)
+    if k < 0.75:     # the same shape name for different boxes
+        first = _name_case(rng, tier)
+        steps = [first]
+        sizes = [first["mask_size"]]
+        for _ in range(rng.choice([1, 2, 2, 3])):
+            nxt = _name_case(rng, tier, kind=first["kind"], specs=first["specs"])
+            if nxt["mask_size"] in sizes and nxt["expansion"] == first["expansion"]:
+                nxt["mask_size"] = (max(s or 0 for s in sizes) or 10) + 2 * rng.randint(1, 3)
+                nxt["omit"] = [o for o in nxt["omit"] if o != "mask_size"]
+            sizes.append(nxt["mask_size"])
+            steps.append(nxt)
+            if rng.random() < 0.25:
+                steps.append(_name_case(rng, tier))
+        return dict(t="session", mode="name", steps=steps)
+    # the same mask_size / center arrays for several constructors
+    even = rng.random() < 0.5
+    box = _box(rng, "quick" if tier != "search" else tier, even=even)
+    kinds = KINDS if even else ["sphere", "cylinder", "s_shell"]
+    centre = _centre(rng, box)
+    steps = []
+    for _ in range(rng.choice([2, 2, 3])):
+        st = _shape_case(rng, tier, hard=rng.random() < 0.8, box=box, kinds=kinds)
+        if st["gauss"][0] != 0 and max(box) > 16:
+            st["gauss"] = [0, 1]
+        st["center"] = centre
+        st["omit"] = [o for o in _omit(rng, st)]
+        steps.append(st)
+    return dict(t="session", mode="shape", box=box, center=centre, steps=steps)
 
 
 def generate(rng, tier, n):
     for _ in range(n):
         k = rng.random()
-        if k < 0.64:
+        if k < 0.56:
             yield _shape_case(rng, tier)
-        elif k < 0.76:
+        elif k < 0.66:
             yield _name_case(rng, tier)
-        else:
+        elif k < 0.88:
             yield _algebra_case(rng, tier)
+        else:
+            yield _session_case(rng, tier)
 
 
 def shrink(case):
+    if case["t"] == "session":
+        # a session is kept a session of >= 2 calls (module-level state left behind by EARLIER cases of the same run must not
+        # make a single call look failing: the stored replay has to fail in a fresh process)
+        st = case["steps"]
+
+        def ok(steps):
+            if len(steps) < 2:
+                return False
+            if case["mode"] == "name":      # still the same name for two different boxes
+                f = steps[0]
+                return len({(s["mask_size"], s["expansion"]) for s in steps if s["kind"] == f["kind"] and s["specs"] == f["specs"]}) >= 2
+            return True
+        cands = [st[:-1], [st[0], st[-1]]]
+        if case["mode"] != "algebra" or not (len(st) > 1 and st[1].get("rewrite")):
+            cands.append(st[1:])
+        for c in cands:
+            if len(c) < len(st) and ok(c):
+                yield dict(case, steps=c)
+        return
     if case["t"] == "algebra":
         ms = case["masks"]
         if len(ms) > 1:
             for i in range(len(ms)):
                 if not (case["fn"] == "subtraction" and i == 0 and len(ms) == 2):
                     yield dict(case, masks=ms[:i] + ms[i + 1:])
+        if any("ctor" in m for m in ms):
+            return
         shp = case["shape"]
         for ax in range(3):
             if shp[ax] > 1:
                 new = list(shp); new[ax] = shp[ax] // 2 if shp[ax] > 3 else shp[ax] - 1
                 def cut(m):
-                    a = np.array(m, dtype=np.uint64).reshape(shp)
+                    a = np.array(m["bits"], dtype=np.uint64).reshape(shp)
                     sl = [slice(None)] * 3; sl[ax] = slice(0, new[ax])
-                    return [int(x) for x in a[tuple(sl)].ravel()]
+                    return dict(m, bits=[int(x) for x in a[tuple(sl)].ravel()])
                 yield dict(case, shape=new, masks=[cut(m) for m in ms])
+        for i, m in enumerate(ms):
+            if m["dtype"] != "float64":
+                yield dict(case, masks=ms[:i] + [dict(m, dtype="float64")] + ms[i + 1:])
         return
     if case["t"] == "name":
         if case["mask_size"] is not None:
             yield dict(case, mask_size=None)
         if case["expansion"] != 4:
             yield dict(case, expansion=4)
+        if case.get("zeros"):
+            yield dict(case, zeros=None)
+        if case.get("omit"):
+            yield dict(case, omit=[])
         for i, s in enumerate(case["specs"]):
             if s > 2:
                 sp = list(case["specs"]); sp[i] = max(2, s // 2)
@@ -503,7 +1048,9 @@ def shrink(case):
     even = case["kind"] in ("ellipsoid", "e_shell")
     box = case["box"]
     if case["gauss"][0] != 0:
-        yield dict(case, gauss=[0, 1])
+        yield dict(case, gauss=[0, 1], omit=[])
+    if case.get("omit"):
+        yield dict(case, omit=[])
     for ax in range(3):
         for nb in (6, box[ax] // 2, box[ax] - (2 if even else 1)):
             nb += nb % 2 if even else 0
@@ -513,7 +1060,7 @@ def shrink(case):
                 if c is not None:
                     c = list(c); c[ax] = min(c[ax], nb - 1)
                 yield dict(case, box=new, center=c)
-    if case.get("center") is not None:
+    if case.get("center") is not None and not case.get("extra"):
         yield dict(case, center=None)
     if case.get("radius") is not None and case["radius"][0] > case["radius"][1]:
         r = case["radius"]
@@ -531,31 +1078,45 @@ def shrink(case):
 
 
 # ------------------------------------------------------------------ implementation
-def _call_shape(cm, case):
+def _call_shape(cm, case, box_arg=None, centre_arg=None):
     kind, box = case["kind"], case["box"]
-    c = case.get("center")
     g = _val(case["gauss"])
     ow = case.get("outwards", True)
-    kw = {}
-    if c is not None:
-        kw["center"] = list(c)
+    omit = set(case.get("omit") or [])
+    size = list(box) if box_arg is None else box_arg
+    c = case.get("center")
+    kw = dict(center=(list(c) if c is not None else None) if centre_arg is None else centre_arg, gaussian=g)
+    default = dict(center=None, gaussian=0, gaussian_outwards=True, radius=None, height=None, radii=None)
     if kind == "sphere":
-        return cm.spherical_mask(list(box), radius=_val(case.get("radius")), gaussian=g, gaussian_outwards=ow, **kw)
-    if kind == "cylinder":
-        return cm.cylindrical_mask(list(box), radius=_val(case.get("radius")), height=case.get("height"), gaussian=g, gaussian_outwards=ow, **kw)
-    if kind == "ellipsoid":
-        radii = [_val(x) for x in case["radii"]] if case.get("radii") is not None else None
-        return cm.ellipsoid_mask(list(box), radii=radii, gaussian=g, gaussian_outwards=ow, **kw)
-    if kind == "s_shell":
-        return cm.spherical_shell_mask(list(box), _val(case["thick"]), radius=_val(case.get("radius")), gaussian=g, **kw)
-    if kind == "e_shell":
-        return cm.ellipsoid_shell_mask(list(box), _val(case["thick"]), [_val(x) for x in case["radii"]], gaussian=g, **kw)
-    raise ValueError(kind)
+        fn, args = cm.spherical_mask, (size,)
+        kw.update(radius=_val(case.get("radius")), gaussian_outwards=ow)
+    elif kind == "cylinder":
+        fn, args = cm.cylindrical_mask, (size,)
+        kw.update(radius=_val(case.get("radius")), height=case.get("height"), gaussian_outwards=ow)
+    elif kind == "ellipsoid":
+        fn, args = cm.ellipsoid_mask, (size,)
+        kw.update(radii=[_val(x) for x in case["radii"]] if case.get("radii") is not None else None, gaussian_outwards=ow)
+    elif kind == "s_shell":
+        fn, args = cm.spherical_shell_mask, (size, _val(case["thick"]))
+        kw.update(radius=_val(case.get("radius")))
+    elif kind == "e_shell":
+        fn, args = cm.ellipsoid_shell_mask, (size, _val(case["thick"]), [_val(x) for x in case["radii"]])
+    else:
+        raise ValueError(kind)
+    for k in omit:
+        if k in kw:
+            if not (kw[k] is None if default[k] is None else kw[k] == default[k]):
+                raise RuntimeError(f"harness: keyword {k} omitted although its value {kw[k]!r} is not the default")
+            del kw[k]
+    return fn(*args, **kw)
 
 
-def _observe(arr, soft):
-    arr = np.asarray(arr)
-    obs = dict(shape=list(arr.shape), dtype=str(arr.dtype))
+def _observe(out, soft):
+    arr = np.asarray(out)
+    obs = dict(shape=list(arr.shape), dtype=str(arr.dtype), pytype=type(out).__name__)
+    if arr.dtype.kind not in "biuf":      # G3: a mask must come back numeric
+        obs["nonnumeric"] = repr(arr.ravel()[:3].tolist())[:120]
+        return obs
     if soft:
         a = arr.astype(np.float64)
         obs.update(soft=_enc_soft(a), min=float(a.min()), max=float(a.max()), nan=bool(np.isnan(a).any()))
@@ -567,6 +1128,114 @@ def _observe(arr, soft):
     return obs
 
 
+def _run_name(cm, case):
+    name = _name_string(case)
+    omit = set(case.get("omit") or [])
+    kw = {}
+    if "mask_size" not in omit or case["mask_size"] is not None:
+        kw["mask_size"] = case["mask_size"]
+    if "mask_expansion" not in omit or case["expansion"] != 4:
+        kw["mask_expansion"] = case["expansion"]
+    parsed = cm.parse_shape_string(name)
+    out = cm.generate_mask(name, **kw)
+    obs = _observe(out, False)
+    try:
+        obs["parsed"] = [parsed[0], [x if isinstance(x, (int, str, float)) and not isinstance(x, bool) else (int(x) if isinstance(x, np.integer) else repr(x)) for x in parsed[1]]]
+        obs["parsed_types"] = [type(parsed).__name__, type(parsed[0]).__name__, type(parsed[1]).__name__] + [type(x).__name__ for x in parsed[1]]
+    except Exception as e:
+        obs["parsed"] = repr(parsed)[:200]
+        obs["parsed_types"] = [type(parsed).__name__]
+    direct = _name_to_shape(case)
+    try:
+        d = np.asarray(_call_shape(cm, direct))
+        obs["same_as_direct"] = bool(d.shape == np.asarray(out).shape and np.array_equal(d, out))
+    except Exception as e:
+        obs["same_as_direct"] = f"direct call raised {type(e).__name__}: {e}"
+    return obs
+
+
+def _build_mask(cm, m, shape):
+    if "ctor" in m:
+        return np.asarray(_call_shape(cm, m["ctor"]))
+    return np.array([b2f(b) for b in m["bits"]], dtype=np.float64).reshape(shape).astype(m["dtype"])
+
+
+def _bits(a):
+    return [f2b(x) for x in np.asarray(a, dtype=np.float64).ravel()]
+
+
+def _call_algebra(cm, fn, lst, masks, explicit_none=False):
+    """one call; caller-owned list and arrays are compared before/after"""
+    before = [m.copy() for m in masks]
+    ids = [id(x) for x in lst]
+    pre = dict(inputs=[_bits(m) for m in masks], in_dtypes=[str(m.dtype) for m in masks])
+    try:
+        out = getattr(cm, fn)(lst, output_name=None) if explicit_none else getattr(cm, fn)(lst)
+    except Exception as e:
+        obs = _err(e)
+        obs.update(pre)
+        obs["mutated"] = _mutated(masks, before, lst, ids)
+        return obs, None
+    arr = np.asarray(out)
+    obs = dict(shape=list(arr.shape), dtype=str(arr.dtype), pytype=type(out).__name__, **pre)
+    if arr.dtype.kind not in "biuf":
+        obs["nonnumeric"] = repr(arr.ravel()[:3].tolist())[:120]
+    else:
+        obs["out"] = _bits(arr)
+    obs["mutated"] = _mutated(masks, before, lst, ids)
+    obs["aliases_input"] = bool(any(np.shares_memory(arr, m) for m in masks))
+    obs["same_object"] = bool(any(out is m for m in masks))
+    return obs, arr
+
+
+def _mutated(masks, before, lst, ids):
+    mut = [i for i, (a, b) in enumerate(zip(masks, before)) if a.dtype != b.dtype or a.shape != b.shape or not np.array_equal(a, b, equal_nan=a.dtype.kind == "f")]
+    if len(lst) != len(ids) or any(id(x) != y for x, y in zip(lst, ids)):
+        mut.append("list")
+    return mut
+
+
+def _run_session(cm, case):
+    steps = []
+    if case["mode"] == "name":
+        for st in case["steps"]:
+            try:
+                steps.append(_run_name(cm, st))
+            except Exception as e:
+                steps.append(_err(e))
+        return dict(steps=steps)
+    if case["mode"] == "shape":
+        box = np.array(case["box"], dtype=np.int64)
+        centre = np.array(case["center"], dtype=np.int64) if case.get("center") is not None else None
+        for st in case["steps"]:
+            b0, c0 = box.copy(), (None if centre is None else centre.copy())
+            try:
+                o = _observe(_call_shape(cm, st, box_arg=box, centre_arg=centre), st["gauss"][0] != 0)
+            except Exception as e:
+                o = _err(e)
+            o["args_changed"] = [n for n, a, b in (("mask_size", box, b0), ("center", centre, c0)) if a is not None and not np.array_equal(a, b)]
+            steps.append(o)
+            box[...] = b0
+            if centre is not None:
+                centre[...] = c0
+        return dict(steps=steps)
+    shape = case["shape"]
+    masks = [_build_mask(cm, m, shape) for m in case["masks"]]
+    lst = list(masks)
+    outs = []
+    for st in case["steps"]:
+        if st.get("rewrite"):      # the caller legitimately rewrites one of ITS arrays in place
+            rw = st["rewrite"]
+            masks[rw["i"]][...] = np.array([b2f(b) for b in rw["bits"]], dtype=np.float64).reshape(shape).astype(masks[rw["i"]].dtype)
+        o, arr = _call_algebra(cm, st["fn"], lst, masks)
+        if arr is not None:
+            o["aliases_earlier_result"] = bool(any(np.shares_memory(arr, p) for p, _ in outs))
+            outs.append((arr, arr.copy()))
+        o["earlier_result_changed"] = [i for i, (p, q) in enumerate(outs[:-1] if arr is not None else outs) if not np.array_equal(p, q, equal_nan=True)]
+        steps.append(o)
+    return dict(steps=steps)
+
+
 def run_impl(case):
     import warnings
     warnings.filterwarnings("ignore")
@@ -574,43 +1243,84 @@ def run_impl(case):
     if case["t"] == "shape":
         return _observe(_call_shape(cm, case), case["gauss"][0] != 0)
     if case["t"] == "name":
-        name = _name_string(case)
-        kw = {} if case["expansion"] == 4 and case.get("default_expansion", True) else {"mask_expansion": case["expansion"]}
-        parsed = cm.parse_shape_string(name)
-        out = cm.generate_mask(name, mask_size=case["mask_size"], **kw)
-        obs = _observe(out, False)
-        obs["parsed"] = [parsed[0], [int(x) for x in parsed[1]]]
-        direct = _name_to_shape(case)
-        try:
-            d = np.asarray(_call_shape(cm, direct))
-            obs["same_as_direct"] = bool(d.shape == np.asarray(out).shape and np.array_equal(d, out))
-        except Exception as e:
-            obs["same_as_direct"] = f"direct call raised {type(e).__name__}: {e}"
-        return obs
+        return _run_name(cm, case)
     if case["t"] == "algebra":
         shp = case["shape"]
-        masks = [np.array([b2f(b) for b in m], dtype=np.float64).reshape(shp) for m in case["masks"]]
-        before = [m.copy() for m in masks]
-        lst = list(masks)
-        out = getattr(cm, case["fn"])(lst)
-        mutated = [i for i, (a, b) in enumerate(zip(masks, before)) if not np.array_equal(a, b)]
-        if len(lst) != len(masks) or any(x is not y for x, y in zip(lst, masks)):
-            mutated.append("list")
-        out = np.asarray(out)
-        return dict(shape=list(out.shape), dtype=str(out.dtype), out=[f2b(x) for x in out.astype(np.float64).ravel()], mutated=mutated,
-                    aliases_input=bool(any(np.shares_memory(out, m) for m in masks)))
+        masks = [_build_mask(cm, m, shp) for m in case["masks"]]
+        return _call_algebra(cm, case["fn"], list(masks), masks, case.get("explicit_none", False))[0]
+    if case["t"] == "session":
+        return _run_session(cm, case)
     raise ValueError(case["t"])
+
+
+# ------------------------------------------------------------------ model requests
+def _probe_voxels(case):
+    """voxels at which the Lean kernel model is evaluated: core voxels (the outermost ones first), faces/corners, random ones"""
+    box, c = _defaults(case)
+    rnd = random.Random(json.dumps(case, sort_keys=True, default=str))
+    vox = set()
+    try:
+        core_exp, _ = _expected(case, blurred=False)
+        idx = np.argwhere(core_exp == 1)
+        if len(idx):
+            d = ((idx - np.array(c)) ** 2).sum(axis=1)
+            for t in np.argsort(-d)[:6]:
+                vox.add(tuple(int(x) for x in idx[t]))
+            for _ in range(4):
+                vox.add(tuple(int(x) for x in idx[rnd.randrange(len(idx))]))
+    except Exception:
+        pass
+    for _ in range(4):
+        vox.add(tuple(rnd.choice([0, b - 1]) for b in box))
+    for _ in range(10):
+        vox.add(tuple(rnd.randrange(b) for b in box))
+    return sorted(vox)
+
+
+def _req_shape(case):
+    r = dict(op="shape", kind=case["kind"], box=case["box"], center=case.get("center"), radius=case.get("radius"), height=case.get("height"),
+             radii=case.get("radii"), thick=case["thick"], gauss=case["gauss"], outwards=case.get("outwards", True))
+    if case["gauss"][0] != 0:
+        r["probe"] = [list(v) for v in _probe_voxels(case)]
+    return r
+
+
+def _req_name(case):
+    return [dict(op="generate", kind=case["kind"], specs=case["specs"], mask_size=case["mask_size"], expansion=case["expansion"]),
+            dict(op="parse", name=_name_string(case))]
+
+
+def _req_algebra(fn, masks_spec, obs):
+    if isinstance(obs, dict) and "inputs" in obs:
+        ins = obs["inputs"]
+    elif all("bits" in m for m in masks_spec):
+        ins = [m["bits"] for m in masks_spec]
+    else:
+        ins = None
+    return [dict(op="algebra", fn=fn, masks=ins)] if ins is not None else [dict(op="algebra", fn="none", masks=[])]
 
 
 def requests(case, obs):
     if case["t"] == "shape":
-        return [dict(op="shape", kind=case["kind"], box=case["box"], center=case.get("center"), radius=case.get("radius"), height=case.get("height"),
-                     radii=case.get("radii"), thick=case["thick"], gauss=case["gauss"], outwards=case.get("outwards", True))]
+        return [_req_shape(case)]
     if case["t"] == "name":
-        return [dict(op="generate", kind=case["kind"], specs=case["specs"], mask_size=case["mask_size"], expansion=case["expansion"])]
-    return [dict(op="algebra", fn=case["fn"], masks=case["masks"])]
+        return _req_name(case)
+    if case["t"] == "algebra":
+        return _req_algebra(case["fn"], case["masks"], obs)
+    out = []
+    sobs = obs.get("steps") if isinstance(obs, dict) else None
+    for i, st in enumerate(case["steps"]):
+        o = sobs[i] if sobs and i < len(sobs) else None
+        if case["mode"] == "name":
+            out += _req_name(st)
+        elif case["mode"] == "shape":
+            out.append(_req_shape(st))
+        else:
+            out += _req_algebra(st["fn"], [dict(nobits=1)], o)
+    return out
 
 
+# ------------------------------------------------------------------ judgement
 def _first_diff(a, b, skip=None):
     d = a != b
     if skip is not None:
@@ -619,10 +1329,18 @@ def _first_diff(a, b, skip=None):
     return (None, 0) if len(idx) == 0 else (tuple(int(x) for x in idx[0]), len(idx))
 
 
-def _judge_hard(case, obs, model, out, label):
-    """case: a shape case (gauss 0); obs: observation of a hard mask"""
+def _numeric(obs, out, label):
+    if "nonnumeric" in obs:
+        out.append(dict(kind="spec", clause=f"{label}-not-numeric", detail=f"returned array of dtype {obs['dtype']} ({obs['nonnumeric']}): a mask must hold numbers"))
+        return False
+    return True
+
+
+def _judge_hard(case, obs, model, out, label, spec_ok=True):
+    """case: a shape case (gauss 0); obs: observation of a hard mask.  spec_ok=False: outside the quantifier, model comparison only"""
     box = case["box"]
-    exp, ties = _expected(case, blurred=False)
+    if not _numeric(obs, out, label):
+        return
     if obs["shape"] != list(box):
         out.append(dict(kind="spec", clause=f"{label}-box", detail=f"returned shape {obs['shape']}, requested box {box}"))
         return
@@ -630,12 +1348,14 @@ def _judge_hard(case, obs, model, out, label):
         out.append(dict(kind="spec", clause=f"{label}-not-binary", detail=f"hard-edged mask holds values other than 0/1: min={obs.get('min')} max={obs.get('max')}"))
         return
     impl = _str2arr(obs["mask"], box)
-    v, n = _first_diff(impl, exp, ties)
-    if v is not None:
-        c = _defaults(case)[1]
-        out.append(dict(kind="spec", clause=f"{label}-membership",
-                        detail=f"{n} voxel(s) differ from the analytic inequality; first {v}: code {int(impl[v])}, statement {int(exp[v])} "
-                               f"(box {box}, centre {c}, radius {case.get('radius')}, height {case.get('height')}, radii {case.get('radii')}, thick {case.get('thick')})"))
+    exp, ties = _expected(case, blurred=False)
+    if spec_ok:
+        v, n = _first_diff(impl, exp, ties)
+        if v is not None:
+            c = _defaults(case)[1]
+            out.append(dict(kind="spec", clause=f"{label}-membership",
+                            detail=f"{n} voxel(s) differ from the analytic inequality; first {v}: code {int(impl[v])}, statement {int(exp[v])} "
+                                   f"(box {box}, centre {c}, radius {case.get('radius')}, height {case.get('height')}, radii {case.get('radii')}, thick {case.get('thick')})"))
     if "error" in model:
         out.append(dict(kind="corr", clause="model-rejects", detail=str(model)))
         return
@@ -644,116 +1364,225 @@ def _judge_hard(case, obs, model, out, label):
         out.append(dict(kind="corr", clause="model-box", detail=f"model box {model['box']} vs {box}"))
         return
     mt = _str2arr(model["ties"], box).astype(bool) if model.get("ties") else np.zeros(box, dtype=bool)
-    v, n = _first_diff(impl, mm, mt)
+    if (ties & ~mt).any():
+        out.append(dict(kind="corr", clause="tie-sets", detail="a voxel where float and exact evaluation differ is not on the model's exact surface"))
+    v, n = _first_diff(impl, mm, ties)
     if v is not None:
         out.append(dict(kind="corr", clause=f"{label}-vs-model", detail=f"{n} voxel(s) differ from the Lean model; first {v}: code {int(impl[v])}, model {int(mm[v])}"))
-    v, n = _first_diff(mm, exp, ties | mt)
-    if v is not None:
-        out.append(dict(kind="corr", clause="model-vs-statement", detail=f"Lean model and the independent evaluation differ at {v} ({n} voxels)"))
+    if spec_ok:
+        v, n = _first_diff(mm, exp)
+        if v is not None:
+            out.append(dict(kind="corr", clause="model-vs-statement", detail=f"Lean model and the independent evaluation differ at {v} ({n} voxels)"))
 
 
-def judge(case, obs, resps):
+def _judge_name(case, obs, resps):
     out = []
+    model = resps[0] if resps else {}
+    pmodel = resps[1] if len(resps) > 1 else {}
     if "error" in obs:
-        model = resps[0] if resps else {}
-        if "error" in model and str(model["error"]).startswith("reject"):
-            return out      # both refuse (outside the property's quantifier)
-        return [dict(kind="spec", clause="raises", detail=obs["error"] + " @" + obs.get("where", ""))]
-    model = resps[0]
-    if case["t"] == "algebra":
-        return _judge_algebra(case, obs, model)
-    if case["t"] == "name":
-        direct = _name_to_shape(case)
-        want = [case["kind"], list(case["specs"])]
-        if obs["parsed"] != want:
-            out.append(dict(kind="spec", clause="parse-shape-string", detail=f"{_name_string(case)} parsed as {obs['parsed']}"))
-        if obs["same_as_direct"] is not True:
-            out.append(dict(kind="spec", clause="generator-same-shape",
-                            detail=f"generate_mask('{_name_string(case)}', {case['mask_size']}, expansion {case['expansion']}) differs from the direct constructor call "
-                                   f"on box {direct['box']}: {obs['same_as_direct']} (returned shape {obs['shape']})"))
-        _judge_hard(direct, obs, model, out, "generator")
-        return out
+        return _raised(obs, model)
+    direct = _name_to_shape(case)
+    name = _name_string(case)
+    want = [case["kind"], list(case["specs"])]
+    if obs["parsed"] != want:
+        out.append(dict(kind="spec", clause="parse-shape-string", detail=f"{name!r} parsed as {obs['parsed']}, expected {want}"))
+    elif obs["parsed_types"][:3] != ["tuple", "str", "list"] or any(t not in ("int", "int64", "int32") for t in obs["parsed_types"][3:]):
+        out.append(dict(kind="spec", clause="parse-returns-non-integer", detail=f"{name!r}: returned types {obs['parsed_types']} (dimensions must be integers)"))
+    if "error" in pmodel or [pmodel.get("kind"), pmodel.get("specs")] != (obs["parsed"] if isinstance(obs["parsed"], list) else None):
+        out.append(dict(kind="corr", clause="parse-vs-model", detail=f"{name!r}: code {obs['parsed']}, Lean parser {pmodel}"))
+    elif pmodel.get("format") != _name_string(dict(case, zeros=None, newline=False)):
+        out.append(dict(kind="corr", clause="model-format", detail=f"Lean formatShape gives {pmodel.get('format')!r} for {want}"))
+    if obs.get("same_as_direct") is not True:
+        out.append(dict(kind="corr", clause="generator-vs-direct-constructor",
+                        detail=f"generate_mask({name!r}, {case['mask_size']}, expansion {case['expansion']}) differs from the library's own direct constructor call "
+                               f"on box {direct['box']}: {obs.get('same_as_direct')} (returned shape {obs['shape']})"))
+    _judge_hard(direct, obs, model, out, "generator")
+    return out
+
+
+def _foot(ties, sigma):
+    from scipy import ndimage
+    rad = int(4 * sigma + 0.5)
+    return ndimage.maximum_filter(ties.astype(np.uint8), size=2 * rad + 1, mode="constant") > 0
+
+
+def _judge_shape(case, obs, model):
+    out = []
+    outside = bool(case.get("extra"))
+    if "error" in obs:
+        return _raised(obs, model, outside_quantifier=outside)
+    if outside and "error" in model:
+        return [dict(kind="corr", clause="model-rejects-where-code-returns", detail=f"{model} but the code returned an array of shape {obs.get('shape')}")]
     soft = case["gauss"][0] != 0
     if not soft:
-        _judge_hard(case, obs, model, out, case["kind"])
+        _judge_hard(case, obs, model, out, case["kind"], spec_ok=not outside)
         return out
     # ---- soft-edged mask
     box = case["box"]
+    if not _numeric(obs, out, "soft"):
+        return out
     if obs["shape"] != list(box):
         return [dict(kind="spec", clause="soft-box", detail=f"returned shape {obs['shape']}, requested {box}")]
+    sigma = _val(case["gauss"])
     a = _dec_soft(obs["soft"], box)
     if obs["nan"] or obs["min"] < -SOFT_TOL or obs["max"] > 1 + SOFT_TOL:
         out.append(dict(kind="spec", clause="soft-range", detail=f"soft mask leaves [0,1]: min={obs['min']!r} max={obs['max']!r} nan={obs['nan']}"))
+    from skimage import filters
+    core_finding = None
     if case.get("outwards", True) and case["kind"] in ("sphere", "cylinder", "ellipsoid"):
         core_exp, _ = _expected(case, blurred=False)
         sel = core_exp == 1
         if sel.any():
             dev = float(np.max(1.0 - a[sel]))
             if not dev <= CORE_TOL:
-                v = tuple(int(x) for x in np.argwhere(sel & (1.0 - a > CORE_TOL))[0])
-                out.append(dict(kind="spec", clause="soft-core", detail=f"outwards blur sigma={_val(case['gauss'])}: core voxel {v} has value {a[v]!r} (1 - value = {1 - a[v]:.3g} > 1e-3)"))
+                v = tuple(int(x) for x in np.argwhere(sel & ~(1.0 - a <= CORE_TOL))[0])
+                core_finding = dict(kind="spec", clause="soft-core", detail=f"{case['kind']} blurred outwards, sigma={sigma}: core voxel {v} has value {float(a[v])!r} "
+                                    f"(1 - value = {1 - a[v]:.3g} > 1e-3; box {box}, radius {case.get('radius')}, height {case.get('height')}, radii {case.get('radii')})")
+                out.append(core_finding)
+    pre_exp, t2 = _expected(case, blurred=True)
+    if core_finding is not None and case["kind"] == "ellipsoid":
+        # is this the documented construction (every radius enlarged to ceil(r + 5 sigma), then the library's Gaussian)?  Then it is
+        # the open finding C13-K2: for elongated ellipsoids the enlarged ellipsoid does not contain the 5-sigma neighbourhood of the core
+        ref = filters.gaussian(pre_exp.astype(bool), sigma=sigma)
+        d = np.abs(ref - a)
+        if t2.any():
+            d = np.where(_foot(t2, sigma), 0.0, d)
+        if float(d.max()) <= 1e-9:
+            core_finding["known"] = "C13-K2"
     if "error" in model:
         out.append(dict(kind="corr", clause="model-rejects", detail=str(model)))
         return out
-    from skimage import filters
     pre = _str2arr(model["mask"], box)
     pre_in = pre.astype(bool) if case["kind"] in ("ellipsoid", "e_shell") else pre.astype(np.float64)
-    ref = filters.gaussian(pre_in, sigma=_val(case["gauss"]))
-    ties = _str2arr(model["ties"], box).astype(bool) if model.get("ties") else None
+    ref = filters.gaussian(pre_in, sigma=sigma)
+    foot = _foot(t2, sigma) if t2.any() else None
     dev = np.abs(ref - a)
-    if ties is not None and ties.any():
-        # a tie voxel may fall either way in floating point; ignore its footprint
-        from scipy import ndimage
-        rad = int(4 * _val(case["gauss"]) + 0.5)
-        foot = ndimage.maximum_filter(ties.astype(np.uint8), size=2 * rad + 1, mode="constant") > 0
-        dev = np.where(foot, 0.0, dev)
+    if foot is not None:
+        dev = np.where(foot, 0.0, dev)      # a tie voxel falls the other way in floating point; ignore its footprint
     if float(dev.max()) > SOFT_TOL:
         v = tuple(int(x) for x in np.argwhere(dev > SOFT_TOL)[0])
         out.append(dict(kind="corr", clause="soft-vs-model", detail=f"soft mask differs from gaussian(model pre-blur mask) by {float(dev.max()):.3g} at {v}"))
-    pre_exp, t2 = _expected(case, blurred=True)
-    v, n = _first_diff(pre, pre_exp, t2 | (ties if ties is not None else False))
+    if model.get("blur") is not None:
+        vox = _probe_voxels(case)
+        if model.get("kernel_radius") != int(4 * sigma + 0.5):
+            out.append(dict(kind="corr", clause="kernel-radius", detail=f"Lean kernelRadius {model.get('kernel_radius')} vs int(4*sigma+0.5) = {int(4 * sigma + 0.5)}"))
+        worst, at = 0.0, None
+        for v, b in zip(vox, model["blur"]):
+            if foot is not None and foot[v]:
+                continue
+            e = abs(b2f(b) - float(a[v]))
+            if not e <= worst:
+                worst, at = e, v
+        if not worst <= KERNEL_TOL:
+            out.append(dict(kind="corr", clause="soft-vs-kernel-model", detail=f"voxel {at}: code {float(a[at])!r}, Lean blurAt (Gaussian weights, radius int(4 sigma+0.5), nearest) differs by {worst:.3g}"))
+    v, n = _first_diff(pre, pre_exp, t2)
     if v is not None:
         out.append(dict(kind="corr", clause="model-vs-statement", detail=f"pre-blur model mask and documented extension ceil(r+5*sigma) differ at {v} ({n} voxels)"))
     return out
 
 
-def _judge_algebra(case, obs, model):
+def _judge_algebra(fn, shp, masks_spec, obs, model, extra=None):
     out = []
-    shp = case["shape"]
-    masks = [np.array([b2f(b) for b in m], dtype=np.float64).reshape(shp) for m in case["masks"]]
-    res = np.array([b2f(b) for b in obs["out"]], dtype=np.float64)
-    fn = case["fn"]
-    if obs["shape"] != list(shp):
-        return [dict(kind="spec", clause=f"{fn}-shape", detail=f"result shape {obs['shape']} for inputs {shp}")]
-    res = res.reshape(shp)
+    if "error" in obs:
+        f = _raised(obs, model, outside_quantifier=bool(extra))
+        if obs.get("mutated"):
+            f.append(dict(kind="spec", clause=f"{fn}-modifies-input", detail=f"input mask(s) {obs['mutated']} changed by the (failing) call"))
+        return f
+    if extra:
+        return [dict(kind="corr", clause="returns-where-model-rejects", detail=f"{extra}: code returned shape {obs.get('shape')}, model {model}")] if "error" in model else []
+    ins = [np.array([b2f(b) for b in m], dtype=np.float64).reshape(shp) for m in obs["inputs"]]
+    for i, m in enumerate(masks_spec or []):
+        if "bits" in m and (obs["inputs"][i] != m["bits"] or obs["in_dtypes"][i] != m["dtype"]):
+            out.append(dict(kind="corr", clause="harness-or-library-raised", detail=f"harness: input {i} was not built as the case says"))
+        if "ctor" in m:
+            exp, ties = _expected(m["ctor"], blurred=False)
+            v, n = _first_diff(ins[i], exp.astype(np.float64), ties)
+            if v is not None:
+                out.append(dict(kind="spec", clause=f"{m['ctor']['kind']}-membership", detail=f"input {i} built by the library's constructor differs from the analytic shape at {v} ({n} voxels)"))
     if obs["mutated"]:
-        out.append(dict(kind="spec", clause=f"{fn}-modifies-input", detail=f"input mask(s) {obs['mutated']} changed by the call"))
+        out.append(dict(kind="spec", clause=f"{fn}-modifies-input", detail=f"input mask(s) {obs['mutated']} (dtypes {obs['in_dtypes']}) changed by the call"))
+    if not _numeric(obs, out, fn):
+        return out
+    if obs["shape"] != list(shp):
+        out.append(dict(kind="spec", clause=f"{fn}-shape", detail=f"result shape {obs['shape']} for inputs {shp}"))
+        return out
+    res = np.array([b2f(b) for b in obs["out"]], dtype=np.float64).reshape(shp)
     if np.isnan(res).any() or res.min() < 0.0 or res.max() > 1.0:
-        out.append(dict(kind="spec", clause=f"{fn}-range", detail=f"result leaves [0,1]: min={res.min()!r} max={res.max()!r}"))
-    if case["flavour"] == "binary":
-        bs = [m == 1.0 for m in masks]
-        any_, all_ = np.logical_or.reduce(bs), np.logical_and.reduce(bs)
-        want = {"union": any_, "intersection": all_,
-                "subtraction": bs[0] & ~(np.logical_or.reduce(bs[1:]) if len(bs) > 1 else np.zeros(shp, dtype=bool)),
-                "difference": (bs[0] ^ bs[1]) if len(bs) == 2 else (any_ & ~all_)}[fn].astype(np.float64)
-        v, n = _first_diff(res, want)
+        out.append(dict(kind="spec", clause=f"{fn}-range", detail=f"result leaves [0,1]: min={res.min()!r} max={res.max()!r} (input dtypes {obs['in_dtypes']})"))
+    if all(np.isin(m, (0.0, 1.0)).all() for m in ins):
+        bs = [m == 1.0 for m in ins]
+        want = _bool_spec(fn, bs)
+        v, n = _first_diff(res, want.astype(np.float64))
         if v is not None:
-            out.append(dict(kind="spec", clause=f"{fn}-voxelwise",
-                            detail=f"{n} voxel(s) differ from the Boolean combination; first {v}: inputs {[float(m[v]) for m in masks]}, code {float(res[v])}, statement {float(want[v])}"))
+            det = (f"{n} voxel(s) differ from the Boolean combination; first {v}: inputs {[float(m[v]) for m in ins]} (dtypes {obs['in_dtypes']}), "
+                   f"code {float(res[v])}, statement {float(want[v])}")
+            umi = np.logical_or.reduce(bs) & ~np.logical_and.reduce(bs)
+            if fn == "difference" and len(bs) != 2 and np.array_equal(res, umi.astype(np.float64)):
+                # exactly the documented union-minus-intersection: the open finding C13-K1 (and nothing else)
+                out.append(dict(kind="spec", clause="difference-xor-n-masks", known="C13-K1",
+                                detail=f"difference of {len(bs)} mask(s) is union minus intersection, not their XOR: " + det))
+            elif fn == "difference" and len(bs) != 2:
+                v2, n2 = _first_diff(res, umi.astype(np.float64))
+                out.append(dict(kind="spec", clause="difference-voxelwise", detail=f"difference of {len(bs)} mask(s) is neither their XOR nor union minus intersection "
+                                f"({n2} voxel(s) differ from the latter, first {v2}: code {float(res[v2])}); vs XOR: " + det))
+            else:
+                out.append(dict(kind="spec", clause=f"{fn}-voxelwise", detail=det))
+        ms = model.get("spec")
+        if ms is not None and ms != "".join("1" if x else "0" for x in want.ravel()):
+            out.append(dict(kind="corr", clause="spec-evaluators-differ", detail="Lean specVox and the numpy Boolean evaluation of the statement differ"))
     if "error" in model:
         out.append(dict(kind="corr", clause="model-rejects", detail=str(model)))
     elif model["out"] != obs["out"]:
-        i = next(i for i, (x, y) in enumerate(zip(model["out"], obs["out"])) if x != y)
-        out.append(dict(kind="corr", clause=f"{fn}-vs-model", detail=f"flat voxel {i}: code {b2f(obs['out'][i])!r}, model {b2f(model['out'][i])!r}"))
+        i = next((i for i, (x, y) in enumerate(zip(model["out"], obs["out"])) if x != y), None)
+        out.append(dict(kind="corr", clause=f"{fn}-vs-model", detail=f"flat voxel {i}: code {b2f(obs['out'][i]) if i is not None else None!r}, model {b2f(model['out'][i]) if i is not None else None!r}"))
+    if obs["dtype"] != "float64":
+        out.append(dict(kind="corr", clause="result-dtype", detail=f"result dtype {obs['dtype']} (the model accumulates in float64) for input dtypes {obs['in_dtypes']}"))
+    if obs.get("aliases_input") or obs.get("same_object"):
+        out.append(dict(kind="corr", clause="result-aliases-input", detail=f"the result shares memory with an input (same object: {obs.get('same_object')}): the model returns a fresh array"))
+    if obs.get("aliases_earlier_result") or obs.get("earlier_result_changed"):
+        out.append(dict(kind="corr", clause="result-aliases-earlier-result", detail=f"shares memory with an earlier result: {obs.get('aliases_earlier_result')}; earlier results changed: {obs.get('earlier_result_changed')}"))
     return out
 
 
-# ------------------------------------------------------------------ evidence
-def nontrivial(case, obs):
+def judge(case, obs, resps):
+    if case["t"] == "shape":
+        return _judge_shape(case, obs, resps[0] if resps else {})
+    if case["t"] == "name":
+        return _judge_name(case, obs, resps)
+    if case["t"] == "algebra":
+        return _judge_algebra(case["fn"], case["shape"], case["masks"], obs, resps[0] if resps else {}, case.get("extra"))
     if "error" in obs:
+        return _raised(obs, {})
+    out = []
+    per = 2 if case["mode"] == "name" else 1
+    for i, (st, o) in enumerate(zip(case["steps"], obs["steps"])):
+        rs = resps[i * per:(i + 1) * per]
+        if case["mode"] == "name":
+            fs = _judge_name(st, o, rs)
+        elif case["mode"] == "shape":
+            fs = _judge_shape(st, o, rs[0] if rs else {})
+            if o.get("args_changed"):
+                fs.append(dict(kind="corr", clause="constructor-modifies-argument", detail=f"{st['kind']}: caller's {o['args_changed']} array changed by the call"))
+        else:
+            fs = _judge_algebra(st["fn"], case["shape"], case["masks"] if i == 0 else None, o, rs[0] if rs else {})
+        for f in fs:
+            f["detail"] = f"call {i + 1} of {len(case['steps'])} in one process ({st.get('fn') or st.get('kind')}): " + f["detail"]
+        out += fs
+    return out
+
+
+def classify(case, obs, finding):
+    """open known findings: C13-K1 (difference of n != 2 masks is union minus intersection, not XOR),
+    C13-K2 (outwards-blurred elongated ellipsoid built exactly as documented loses more than 1e-3 in its core)"""
+    return finding.get("known")
+
+
+# ------------------------------------------------------------------ evidence
+def _nontrivial_one(case, obs):
+    if not isinstance(obs, dict) or "error" in obs or "nonnumeric" in obs:
         return False
     if case["t"] == "algebra":
-        vals = set(obs["out"])
+        vals = set(obs.get("out") or [])
         return len(case["masks"]) >= 2 and f2b(0.0) in vals and f2b(1.0) in vals
     if case["t"] == "name":
         return obs.get("mask") is not None and "0" in obs["mask"] and "1" in obs["mask"]
@@ -768,84 +1597,153 @@ def nontrivial(case, obs):
     return clipped or case.get("center") is not None
 
 
+def nontrivial(case, obs):
+    if case["t"] == "session":
+        return "steps" in obs and len(obs["steps"]) >= 2 and not any("error" in o for o in obs["steps"])
+    return _nontrivial_one(case, obs)
+
+
 def _bucket(n):
     return "6-10" if n <= 10 else ("11-16" if n <= 16 else ("17-28" if n <= 28 else "29-48"))
 
 
-def stats(case, obs, resps):
-    st = {"type": case["t"]}
-    if case["t"] == "algebra":
-        st.update(fn=case["fn"], n_masks=len(case["masks"]), flavour=case["flavour"])
-        return st
-    st["kind"] = case["kind"]
-    if case["t"] == "name":
-        st["name_mask_size"] = "default" if case["mask_size"] is None else "given"
-        st["name_expansion"] = case["expansion"]
-        return st
+def _stats_shape(case, obs, resp):
+    st = {"kind": case["kind"]}
     box = case["box"]
     st["box_max"] = _bucket(max(box))
     st["box_form"] = "cubic" if len(set(box)) == 1 else "non-cubic"
     c = case.get("center")
-    st["centre"] = "default" if c is None else ("on-face" if any(x == 0 or x == b - 1 for x, b in zip(c, box)) else "interior")
+    st["centre"] = "default" if c is None else ("outside-box" if case.get("extra") else ("on-face" if any(x == 0 or x == b - 1 for x, b in zip(c, box)) else "interior"))
     st["gauss"] = str(_val(case["gauss"]))
+    st["omitted_keywords"] = list(case.get("omit") or []) or ["none"]
     if case["gauss"][0] != 0:
-        st["edge_mode"] = "outwards" if case.get("outwards", True) else "centred"
+        st["edge_mode"] = ("outwards" if case.get("outwards", True) else "centred") + ("(default)" if "gaussian_outwards" in (case.get("omit") or []) else "")
     if case["kind"] in ("sphere", "cylinder") and case.get("radius") is not None:
         r = _fr(case["radius"])
         st["radius_vs_box"] = "beyond" if r >= max(box) else ("> half of min" if 2 * r > min(box) else "inside")
         st["radius_grid"] = "integer" if case["radius"][1] == 1 else "fractional"
-    if case["kind"] == "cylinder" and case.get("height") is not None:
+        if case["kind"] == "sphere" and r >= max(box) and c is not None:
+            far2 = sum(max(x, b - 1 - x) ** 2 for x, b in zip(c, box))
+            st["oversize_sphere"] = "some corner outside" if r * r < far2 else "whole box inside"
+    if case["kind"] == "cylinder" and case.get("height") is not None and not case.get("extra"):
         cz = c[2] if c is not None else box[2] // 2
         h = case["height"] // 2
         st["cyl_slab"] = ("clip-lo" if cz - h < 0 else "") + ("clip-hi" if cz + h + 1 > box[2] else "") or "inside"
-        st["cyl_height_parity"] = "odd" if case["height"] % 2 else "even"
-    if resps and isinstance(resps[0], dict) and resps[0].get("ties"):
-        st["ellipsoid_tie_voxels"] = "0" if "1" not in resps[0]["ties"] else ("1-6" if resps[0]["ties"].count("1") <= 6 else ">6")
-    if "error" in obs:
-        st["impl_error"] = obs["error"][:60]
+        st["cyl_height_mod4"] = case["height"] % 4
+    if case["kind"] in ("ellipsoid", "e_shell") and not case.get("extra"):
+        try:
+            n = int(_expected(case, blurred=case["gauss"][0] != 0)[1].sum())
+            st["ellipsoid_float_tie_voxels"] = "0" if n == 0 else ("1-6" if n <= 6 else ">6")
+        except Exception:
+            pass
+        if isinstance(resp, dict) and resp.get("ties"):
+            st["ellipsoid_exact_surface_voxels"] = "0" if "1" not in resp["ties"] else ("1-6" if resp["ties"].count("1") <= 6 else ">6")
+    if isinstance(obs, dict):
+        if "error" in obs:
+            st["impl_error"] = obs["error"][:60]
+        elif "dtype" in obs:
+            st["returned_dtype"] = f"{case['kind']}:{obs['dtype']}"
+    return st
+
+
+def _stats_algebra(fn, masks, obs):
+    st = dict(fn=fn, n_masks=len(masks))
+    if isinstance(obs, dict):
+        if obs.get("in_dtypes"):
+            st["input_dtype"] = sorted(set(obs["in_dtypes"]))
+            st["dtype_mix"] = "mixed" if len(set(obs["in_dtypes"])) > 1 else "uniform"
+            st["first_operand_dtype"] = f"{fn}:{obs['in_dtypes'][0]}"
+        if "dtype" in obs:
+            st["result_dtype"] = obs["dtype"]
+        if "error" in obs:
+            st["impl_error"] = obs["error"][:60]
+    return st
+
+
+def stats(case, obs, resps):
+    st = {"type": case["t"] if case["t"] != "session" else "session-" + case["mode"]}
+    if case["t"] == "algebra":
+        st.update(_stats_algebra(case["fn"], case["masks"], obs))
+        st["flavour"] = case["flavour"]
+        st["masks_from_constructors"] = sum(1 for m in case["masks"] if "ctor" in m)
+        st["output_name"] = "explicit None" if case.get("explicit_none") else "omitted"
+        return st
+    if case["t"] == "name":
+        st["kind"] = case["kind"]
+        st["name_mask_size"] = ("default" if case["mask_size"] is None else "given") + ("(omitted)" if "mask_size" in (case.get("omit") or []) else "")
+        st["name_expansion"] = str(case["expansion"]) + ("(omitted)" if "mask_expansion" in (case.get("omit") or []) else "")
+        st["name_form"] = "leading-zeros" if case.get("zeros") and any(case["zeros"]) else ("trailing-newline" if case.get("newline") else "canonical")
+        if isinstance(obs, dict) and obs.get("parsed_types"):
+            st["parsed_types"] = ",".join(sorted(set(obs["parsed_types"][3:])))
+        return st
+    if case["t"] == "session":
+        st["session_calls"] = len(case["steps"])
+        if case["mode"] == "algebra":
+            st["session_rewrites"] = sum(1 for s in case["steps"] if s.get("rewrite"))
+            st["session_fns"] = [s["fn"] for s in case["steps"]]
+        elif case["mode"] == "name":
+            first = case["steps"][0]
+            st["same_name_distinct_boxes"] = len({(_name_to_shape(s)["box"][0]) for s in case["steps"] if s["kind"] == first["kind"] and s["specs"] == first["specs"]})
+        else:
+            st["session_kinds"] = [s["kind"] for s in case["steps"]]
+        return st
+    st.update(_stats_shape(case, obs, resps[0] if resps else None))
     return st
 
 
 def sample_view(case):
+    def mview(m):
+        return dict(ctor=m["ctor"]) if "ctor" in m else dict(dtype=m["dtype"], first_values=[b2f(b) for b in m["bits"][:6]])
     if case["t"] == "algebra":
-        return dict(t="algebra", fn=case["fn"], shape=case["shape"], n_masks=len(case["masks"]), flavour=case["flavour"],
-                    first_values=[b2f(b) for b in case["masks"][0][:8]])
+        return dict(t="algebra", fn=case["fn"], shape=case["shape"], flavour=case["flavour"], masks=[mview(m) for m in case["masks"]])
+    if case["t"] == "session" and case["mode"] == "algebra":
+        return dict(t="session", mode="algebra", shape=case["shape"], masks=[mview(m) for m in case["masks"]],
+                    steps=[dict(fn=s["fn"], rewrites=(s["rewrite"]["i"] if s.get("rewrite") else None)) for s in case["steps"]])
     return case
 
 
 def probes(rng):
-    """the recorded assumptions about skimage.filters.gaussian, probed on an impulse"""
+    """the recorded assumptions about skimage.filters.gaussian, probed on an impulse; the weight beyond 5 sigma is the hypothesis
+    `tail <= coreTol` of the Lean theorem soft_sphere_core_within_tol / soft_cylinder_core_within_tol"""
     from skimage import filters
     out = []
-    for sigma in (0.5, 1.0, 2.5, 3.0):
-        n = 2 * int(4 * sigma + 0.5) + 9
+    for sigma in (0.5, 1.0, 1.5, 2.0, 2.5, 3.0):
+        rad = int(4 * sigma + 0.5)
+        n = 2 * rad + 9
         imp = np.zeros((n, n, n)); imp[n // 2, n // 2, n // 2] = 1.0
         k = filters.gaussian(imp, sigma=sigma)
-        rad = int(4 * sigma + 0.5)
         line = k[:, n // 2, n // 2]
         support = np.nonzero(line)[0]
         ok = (k.min() >= 0 and abs(k.sum() - 1) < 1e-12 and support.min() == n // 2 - rad and support.max() == n // 2 + rad
               and np.allclose(k, k[::-1, ::-1, ::-1], atol=1e-18))
+        t = np.arange(-rad, rad + 1, dtype=np.float64)
+        w1 = np.exp(-0.5 / (sigma * sigma) * t * t); w1 /= w1.sum()
+        sep = np.abs(k[n // 2 - rad:n // 2 + rad + 1, n // 2 - rad:n // 2 + rad + 1, n // 2 - rad:n // 2 + rad + 1]
+                     - w1[:, None, None] * w1[None, :, None] * w1[None, None, :]).max()
+        ok = ok and sep < 1e-15      # the kernel is the product of the 1-D weights of the Lean model
         edge = np.ones((5, 5, 5))
         ok = ok and np.abs(filters.gaussian(edge, sigma=sigma) - 1).max() < 1e-12      # mode='nearest': a full box stays 1
-        out.append(dict(name=f"gaussian-kernel-sigma-{sigma}", ok=bool(ok), detail=f"min={k.min():.3g} sum-1={k.sum()-1:.3g} support={support.min()-n//2}..{support.max()-n//2}"))
+        out.append(dict(name=f"gaussian-kernel-sigma-{sigma}", ok=bool(ok), detail=f"min={k.min():.3g} sum-1={k.sum()-1:.3g} support={support.min()-n//2}..{support.max()-n//2} |k - w1*w1*w1|={sep:.2g}"))
+        i, j, l = np.indices(k.shape)
+        d2 = (i - n // 2) ** 2 + (j - n // 2) ** 2 + (l - n // 2) ** 2
+        tail = float(k[d2 > (5 * sigma) ** 2].sum())
+        out.append(dict(name=f"gaussian-tail-beyond-5-sigma-{sigma}", ok=bool(tail < CORE_TOL), detail=f"kernel weight at offsets farther than 5*sigma = {tail:.3g} (must be < 1e-3)"))
     return out
-
-
-def classify(case, obs, finding):
-    return None
 
 
 LEVEL_TEXT = ("Lean 4 theorems about an executable model of cryomask's hard-edged constructors and mask algebra: exact voxel membership of spheres "
               "(distance <= r, also stated with Real.sqrt), cylinders (planar distance <= r and |k-cz| <= floor(h/2), clipped to the box), ellipsoids on even "
-              "boxes (sum((i-c)/r)^2 <= 1), shells = outer and not inner, generate_mask = the direct constructor on the documented box size, for all box "
-              "sizes, centres and radii; union/intersection/subtraction/difference of any number of {0,1} masks = OR / AND / AND-NOT / (OR and not AND; XOR "
-              "for two), results in [0,1] for arbitrary real inputs; convolution with a non-negative unit-sum kernel stays in [0,1] and loses at most the "
-              "kernel weight falling outside the solid; the outwards extension contains every point within 5*sigma of the core. Tied to the source by "
-              "re-extracted statements of cryomask.py and by a per-voxel differential run of the real functions against the model.")
-LEVEL_NOTE = ("the Gaussian filter (skimage) is an external service: [0,1] and the 1e-3 core bound of soft masks are validated per case, their proof is "
-              "relative to the kernel being non-negative with unit sum and tail < 1e-3 beyond 5 sigma (probed); 'never modify their inputs' is validated at "
-              "run time only; numpy float comparisons are assumed exact on the integer/dyadic grids generated; ellipsoid voxels exactly on the surface "
-              "(>= 2 non-zero terms) are excluded as ties")
+              "boxes (sum((i-c)/r)^2 <= 1), shells = outer and not inner; parse_shape_string(format(kind, specs)) = (kind, specs) and generate_mask = the "
+              "analytic shape on the documented box size for every shape name; union/intersection/subtraction/difference of any number of {0,1} masks = "
+              "OR / AND / AND-NOT / (OR and not AND); the latter is XOR exactly for two masks (proved: it is NOT the XOR of one or of three masks), results "
+              "in [0,1] for arbitrary real inputs; a filter with non-negative unit-sum weights and nearest-voxel boundary applied to the model's own pre-blur "
+              "sphere/cylinder of an outwards blur leaves every core voxel within 1e-3 of 1 when the kernel weight beyond 5 sigma is at most 1e-3 (the enlarged "
+              "solid contains the 5-sigma neighbourhood of the core: proved for spheres and cylinders, refuted for ellipsoids). Tied to the source by the "
+              "complete normalised bodies and signatures of 17 functions and by a per-voxel differential run of the real functions against the model.")
+LEVEL_NOTE = ("the Gaussian filter (skimage) is an external service: its kernel (non-negative, unit sum, product of exp weights, weight beyond 5 sigma < 1e-3) "
+              "is probed each run and compared at sampled voxels with the Lean kernel model; 'never modify their inputs' is validated at run time only; numpy "
+              "float comparisons are assumed exact on the integer/dyadic grids generated; ellipsoid voxels exactly on the surface where double rounding "
+              "decides are excluded as ties. OPEN: C13-K1 (difference of n != 2 masks is union minus intersection, not XOR), C13-K2 (outwards-blurred "
+              "elongated ellipsoids lose more than 1e-3 in the core)")
 TECHNIQUE = "Lean 4 proof (order/field reasoning, list induction) + re-extracted source statements + per-voxel differential correspondence"
 DESIGN_REF = "DESIGN.md section 4, C13"
